@@ -1,18 +1,26 @@
 /-
-C17 (semantic layer) — one pass, prefix stability, determinism.
+C17 (semantic layer) — one pass, prefix stability, determinism, independence of text ranges.
 
 * `loop_append`: the top-level loop over `p ++ q` is the loop over `p` followed by the loop over
   `q` (with the fuel that is left) from the context `p` ended in — analysis is a left fold.
 * `ExtTop`, `loop_extTop`: the loop only ever appends to the program, the symbol vector and the
-  diagnostics.
+  diagnostics (built on `Oq3.C06.allFrame`).
 * `prefix_stable`, `prefix_stable_analyze`: statements, symbols and diagnostics obtained for `p`
   are prefixes of those obtained for `p ++ q`, for every `q`, fuel and start context.
   The pending-annotation corner, exactly: annotations still pending when `p` ends are NOT part
   of `p`'s result (the pass drops them at end of input) but they are part of the context `q`
   starts in, so they end up on the first statement `q` emits (`pending_go_to_first_emitted`).
   That statement lies beyond `p`'s prefix, so the prefix relation itself has no exception.
-* `deterministic`: the model is a function of the AST (`analyze_congr`); `span_irrelevant*`:
-  text ranges influence nothing but the positions stored in diagnostics.
+* `analyze_congr` (determinism): the model is a function of the typed AST and the fuel.
+* `eraseSpans`, `erCtx`, `Comm`, `allComm`, `analyze_eraseSpans`, `span_irrelevant`,
+  `span_irrelevant_ok`: text ranges influence nothing but the positions stored in diagnostics —
+  analysing the span-erased AST gives the span-erased result (same outcome incl. panics, same
+  graph, symbols, constant values, pending annotations, diagnostic kinds and order).  Proved by
+  pushing the commutation `Comm` through every primitive, every leaf function and the 25-function
+  mutual block (generated script, induction on fuel).  This is the semantic-layer half of layout
+  invariance: a re-layout changes nothing in the typed AST but ranges (that half is checked on
+  the implementation by the metamorphic runs of `vf/oracle_sema_c.py`).
+* `rename_equivariant` is NOT proved (stretch; see the report): checked metamorphically only.
 -/
 import Oq3.Props.C06
 
@@ -230,5 +238,1075 @@ theorem prefix_stable_analyze {fuel : Nat} {sp sp' : Ast.Span} {p q : List Ast.S
 /-- the analysis is a function of the typed AST and the fuel — nothing else is consulted (no
 global state, no hash-iteration order, no clock): equal inputs give equal results -/
 theorem analyze_congr {p p' : Ast.Program} (h : p = p') : analyze p = analyze p' := by rw [h]
+
+/-! ## span irrelevance -/
+
+/-! ### erasing text ranges -/
+
+def z : Ast.Span := ⟨0, 0⟩
+
+def erName (n : Ast.Name) : Ast.Name := { n with span := z }
+def erIdent (n : Ast.Identifier) : Ast.Identifier := { n with span := z }
+def erHw (n : Ast.HardwareQubit) : Ast.HardwareQubit := { n with span := z }
+def erParam (n : Ast.Param) : Ast.Param := { n with span := z }
+def erParamList (n : Ast.ParamList) : Ast.ParamList := ⟨z, n.params.map erParam⟩
+def erFilePath (n : Ast.FilePath) : Ast.FilePath := { n with span := z }
+def erLiteral (n : Ast.Literal) : Ast.Literal := { n with span := z }
+
+mutual
+def erExpr : Ast.Expr → Ast.Expr
+  | .prefixExpr _ op e => .prefixExpr z op (erOExpr e)
+  | .parenExpr p => .parenExpr (erParen p)
+  | .binExpr _ op l r => .binExpr z op (erOExpr l) (erOExpr r)
+  | .literal l => .literal (erLiteral l)
+  | .timingLiteral _ u t l => .timingLiteral z u t (l.map erLiteral)
+  | .identifier i => .identifier (erIdent i)
+  | .hardwareQubit h => .hardwareQubit (erHw h)
+  | .rangeExpr r => .rangeExpr (erRange r)
+  | .indexExpr _ e ix => .indexExpr z (erOExpr e) (erOIndexOp ix)
+  | .indexedIdentifier ii => .indexedIdentifier (erIndexedIdent ii)
+  | .measureExpression _ g => .measureExpression z (erOGateOperand g)
+  | .returnExpr _ e => .returnExpr z (erOExpr e)
+  | .castExpression _ st e => .castExpression z (erOScalarType st) (erOExpr e)
+  | .callExpr _ al i => .callExpr z (erOArgList al) (i.map erIdent)
+  | .gateCallExpr g => .gateCallExpr (erGateCall g)
+  | .gPhaseCallExpr g => .gPhaseCallExpr (erGPhase g)
+  | .modifiedGateCallExpr _ ms g gp => .modifiedGateCallExpr z (erModifiers ms) (erOGateCall g) (erOGPhase gp)
+  | .unsupported k _ => .unsupported k z
+def erOExpr : Option Ast.Expr → Option Ast.Expr
+  | none => none
+  | some e => some (erExpr e)
+def erExprs : List Ast.Expr → List Ast.Expr
+  | [] => []
+  | e :: es => erExpr e :: erExprs es
+def erParen : Ast.ParenExpr → Ast.ParenExpr
+  | .mk _ e => .mk z (erOExpr e)
+def erOParen : Option Ast.ParenExpr → Option Ast.ParenExpr
+  | none => none
+  | some p => some (erParen p)
+def erRange : Ast.RangeExpr → Ast.RangeExpr
+  | .mk _ a b c => .mk z (erOExpr a) (erOExpr b) (erOExpr c)
+def erDesignator : Ast.Designator → Ast.Designator
+  | .mk _ e => .mk z (erOExpr e)
+def erODesignator : Option Ast.Designator → Option Ast.Designator
+  | none => none
+  | some d => some (erDesignator d)
+def erScalarType : Ast.ScalarType → Ast.ScalarType
+  | .mk _ k d s => .mk z k (erODesignator d) (erOScalarType s)
+def erOScalarType : Option Ast.ScalarType → Option Ast.ScalarType
+  | none => none
+  | some s => some (erScalarType s)
+def erExprList : Ast.ExpressionList → Ast.ExpressionList
+  | .mk _ es => .mk z (erExprs es)
+def erOExprList : Option Ast.ExpressionList → Option Ast.ExpressionList
+  | none => none
+  | some el => some (erExprList el)
+def erSet : Ast.SetExpression → Ast.SetExpression
+  | .mk _ el => .mk z (erOExprList el)
+def erIndexKind : Ast.IndexKind → Ast.IndexKind
+  | .setExpression s => .setExpression (erSet s)
+  | .expressionList el => .expressionList (erExprList el)
+def erOIndexKind : Option Ast.IndexKind → Option Ast.IndexKind
+  | none => none
+  | some k => some (erIndexKind k)
+def erIndexOp : Ast.IndexOperator → Ast.IndexOperator
+  | .mk _ k => .mk z (erOIndexKind k)
+def erOIndexOp : Option Ast.IndexOperator → Option Ast.IndexOperator
+  | none => none
+  | some i => some (erIndexOp i)
+def erIndexOps : List Ast.IndexOperator → List Ast.IndexOperator
+  | [] => []
+  | i :: is => erIndexOp i :: erIndexOps is
+def erIndexedIdent : Ast.IndexedIdentifier → Ast.IndexedIdentifier
+  | .mk _ i ixs => .mk z (i.map erIdent) (erIndexOps ixs)
+def erGateOperand : Ast.GateOperand → Ast.GateOperand
+  | .hardwareQubit h => .hardwareQubit (erHw h)
+  | .identifier i => .identifier (erIdent i)
+  | .indexedIdentifier ii => .indexedIdentifier (erIndexedIdent ii)
+def erOGateOperand : Option Ast.GateOperand → Option Ast.GateOperand
+  | none => none
+  | some g => some (erGateOperand g)
+def erGateOperands : List Ast.GateOperand → List Ast.GateOperand
+  | [] => []
+  | g :: gs => erGateOperand g :: erGateOperands gs
+def erQubitList : Ast.QubitList → Ast.QubitList
+  | .mk _ gs => .mk z (erGateOperands gs)
+def erOQubitList : Option Ast.QubitList → Option Ast.QubitList
+  | none => none
+  | some q => some (erQubitList q)
+def erArgList : Ast.ArgList → Ast.ArgList
+  | .mk _ el => .mk z (erOExprList el)
+def erOArgList : Option Ast.ArgList → Option Ast.ArgList
+  | none => none
+  | some a => some (erArgList a)
+def erGateCall : Ast.GateCallExpr → Ast.GateCallExpr
+  | .mk _ ql al i => .mk z (erOQubitList ql) (erOArgList al) (i.map erIdent)
+def erOGateCall : Option Ast.GateCallExpr → Option Ast.GateCallExpr
+  | none => none
+  | some g => some (erGateCall g)
+def erGPhase : Ast.GPhaseCallExpr → Ast.GPhaseCallExpr
+  | .mk _ a => .mk z (erOExpr a)
+def erOGPhase : Option Ast.GPhaseCallExpr → Option Ast.GPhaseCallExpr
+  | none => none
+  | some g => some (erGPhase g)
+def erModifier : Ast.Modifier → Ast.Modifier
+  | .invModifier _ => .invModifier z
+  | .powModifier _ p => .powModifier z (erOParen p)
+  | .ctrlModifier _ p => .ctrlModifier z (erOParen p)
+  | .negCtrlModifier _ p => .negCtrlModifier z (erOParen p)
+def erModifiers : List Ast.Modifier → List Ast.Modifier
+  | [] => []
+  | m :: ms => erModifier m :: erModifiers ms
+end
+
+def erParamType : Ast.ParamType → Ast.ParamType
+  | .scalarType s => .scalarType (erScalarType s)
+  | .arrayRefType _ => .arrayRefType z
+
+def erTypedParam (p : Ast.TypedParam) : Ast.TypedParam :=
+  ⟨z, p.paramType.map erParamType, p.oldTypedParam, p.name.map erName⟩
+
+def erTypedParamList (l : Ast.TypedParamList) : Ast.TypedParamList := ⟨z, l.typedParams.map erTypedParam⟩
+
+def erReturnSignature (r : Ast.ReturnSignature) : Ast.ReturnSignature := ⟨z, erOScalarType r.scalarType⟩
+
+def erQubitType (q : Ast.QubitType) : Ast.QubitType := ⟨z, erODesignator q.designator⟩
+
+def erForIterable (f : Ast.ForIterable) : Ast.ForIterable :=
+  ⟨z, f.setExpression.map erSet, f.rangeExpr.map erRange, erOExpr f.forIterableExpr⟩
+
+mutual
+def erStmt : Ast.Stmt → Ast.Stmt
+  | .ifStmt _ c t f => .ifStmt z (erOExpr c) (erAccBos t) (erOBos f)
+  | .whileStmt _ c b => .whileStmt z (erOExpr c) (erAccBos b)
+  | .forStmt _ v st it b => .forStmt z (v.map erName) (erOScalarType st) (it.map erForIterable) (erAccBos b)
+  | .switchCaseStmt _ c cs d => .switchCaseStmt z (erOExpr c) (erCases cs) (erOBlock d)
+  | .classicalDeclarationStatement _ a st k n e =>
+    .classicalDeclarationStatement z a (erOScalarType st) k (n.map erName) (erOExpr e)
+  | .ioDeclarationStatement _ a st n i => .ioDeclarationStatement z a (erOScalarType st) (n.map erName) i
+  | .quantumDeclarationStatement _ n h q =>
+    .quantumDeclarationStatement z (n.map erName) (h.map erHw) (q.map erQubitType)
+  | .assignmentStmt _ i rhs ii => .assignmentStmt z (i.map erIdent) (erOExpr rhs) (ii.map erIndexedIdent)
+  | .breakStmt _ => .breakStmt z
+  | .continueStmt _ => .continueStmt z
+  | .endStmt _ => .endStmt z
+  | .gate _ n a q b => .gate z (n.map erName) (a.map erParamList) (q.map erParamList) (erOBlock b)
+  | .defStmt _ n tp b rs =>
+    .defStmt z (n.map erName) (tp.map erTypedParamList) (erOBlock b) (rs.map erReturnSignature)
+  | .barrier _ q => .barrier z (erOQubitList q)
+  | .delayStmt _ q d => .delayStmt z (erOQubitList q) (erODesignator d)
+  | .reset _ g => .reset z (erOGateOperand g)
+  | .includeStmt _ f => .includeStmt z (f.map erFilePath)
+  | .exprStmt _ e => .exprStmt z (erOExpr e)
+  | .versionString _ => .versionString z
+  | .pragmaStatement _ t => .pragmaStatement z t
+  | .annotationStatement _ t => .annotationStatement z t
+  | .aliasDeclarationStatement _ n e => .aliasDeclarationStatement z (n.map erName) (erOExpr e)
+  | .notImpl k _ => .notImpl k z
+def erStmts : List Ast.Stmt → List Ast.Stmt
+  | [] => []
+  | s :: ss => erStmt s :: erStmts ss
+def erBlock : Ast.BlockExpr → Ast.BlockExpr
+  | .mk _ ss => .mk z (erStmts ss)
+def erOBlock : Option Ast.BlockExpr → Option Ast.BlockExpr
+  | none => none
+  | some b => some (erBlock b)
+def erBos : Ast.BlockOrStmt → Ast.BlockOrStmt
+  | .blockExpr b => .blockExpr (erBlock b)
+  | .stmt s => .stmt (erStmt s)
+def erOBos : Option Ast.BlockOrStmt → Option Ast.BlockOrStmt
+  | none => none
+  | some b => some (erBos b)
+def erAccBos : Ast.Acc Ast.BlockOrStmt → Ast.Acc Ast.BlockOrStmt
+  | .ok b => .ok (erBos b)
+  | .panicked => .panicked
+def erCase : Ast.CaseExpr → Ast.CaseExpr
+  | .mk _ el b => .mk z (erOExprList el) (erOBlock b)
+def erCases : List Ast.CaseExpr → List Ast.CaseExpr
+  | [] => []
+  | c :: cs => erCase c :: erCases cs
+end
+
+/-- `Ast.eraseSpans`: the same program with every text range replaced by `0..0` -/
+def eraseSpans (p : Ast.Program) : Ast.Program := ⟨z, erStmts p.statements⟩
+
+/-! ### contexts up to diagnostic positions -/
+
+def erErr (e : SemErr) : SemErr := ⟨e.kind, 0, 0⟩
+
+def erCtx (c : Ctx) : Ctx := { c with semanticErrors := c.semanticErrors.map erErr }
+
+/-- `y` run on an erased context = `x` run on the context, erased; results related by `g` -/
+structure Comm {α β} (g : α → β) (x : M α) (y : M β) : Prop where
+  run : ∀ c, y (erCtx c) = (x c).map (fun r => (g r.1, erCtx r.2))
+
+
+theorem Comm.bind {α α' β β'} {g : α → α'} {h : β → β'} {x : M α} {y : M α'} {f : α → M β} {f' : α' → M β'}
+    (hx : Comm g x y) (hf : ∀ a, Comm h (f a) (f' (g a))) : Comm h (x >>= f) (y >>= f') := by
+  refine ⟨fun c => ?_⟩
+  show (StateT.bind y f') (erCtx c) = Except.map _ ((StateT.bind x f) c)
+  unfold StateT.bind
+  simp only [bind, Except.bind]
+  rw [hx.run c]
+  cases x c with
+  | error e => rfl
+  | ok p => obtain ⟨a, c1⟩ := p; exact (hf a).run c1
+
+theorem Comm.pure {α β} {g : α → β} {a : α} {b : β} (h : g a = b) : Comm g (pure a) (pure b) := by
+  refine ⟨fun c => ?_⟩; subst h; rfl
+
+theorem Comm.fail {α β} {g : α → β} (site : String) : Comm g (Sema.fail site) (Sema.fail site) := by
+  refine ⟨fun c => ?_⟩; rfl
+
+theorem Comm.throw {α β} {g : α → β} (o : Outcome) : Comm g (throw o : M α) (throw o : M β) := by
+  refine ⟨fun c => ?_⟩; rfl
+
+theorem erCtx_idem (c : Ctx) : erCtx (erCtx c) = erCtx c := by
+  simp [erCtx, erErr, Function.comp_def]
+
+theorem insertError_comm (k : SemanticErrorKind) (sp : Ast.Span) :
+    Comm id (insertError k sp) (insertError k z) := by
+  refine ⟨fun c => ?_⟩
+  simp [insertError, erCtx, erErr, z, modify, modifyGet, MonadStateOf.modifyGet, StateT.modifyGet, Except.map, pure, Except.pure]
+
+theorem Comm.unwrap {α β} (g : α → β) (site : String) (o : Option α) :
+    Comm g (Sema.unwrap site o) (Sema.unwrap site (o.map g)) := by
+  cases o
+  · exact Comm.fail _
+  · exact Comm.pure rfl
+
+theorem Comm.unwrap_id {α} (site : String) (o : Option α) : Comm id (Sema.unwrap site o) (Sema.unwrap site o) := by
+  cases o
+  · exact Comm.fail _
+  · exact Comm.pure rfl
+
+theorem Comm.ite {α β} {g : α → β} (p : Prop) [Decidable p] {x x' : M α} {y y' : M β}
+    (h1 : Comm g x y) (h2 : Comm g x' y') : Comm g (if p then x else x') (if p then y else y') := by
+  split <;> assumption
+
+theorem Comm.fail_bind {α α' β β'} {h : β → β'} (site : String) {f : α → M β} {f' : α' → M β'} :
+    Comm h (Sema.fail site >>= f) (Sema.fail site >>= f') := ⟨fun _ => rfl⟩
+
+theorem Comm.throw_bind {α α' β β'} {h : β → β'} (o : Outcome) {f : α → M β} {f' : α' → M β'} :
+    Comm h ((MonadExcept.throw o : M α) >>= f) ((MonadExcept.throw o : M α') >>= f') := ⟨fun _ => rfl⟩
+
+theorem Comm.of_eq {α β} {g : α → β} {x : M α} {y y' : M β} (h : Comm g x y) (e : y = y') : Comm g x y' :=
+  e ▸ h
+
+syntax "comm_eq" : tactic
+macro_rules | `(tactic| comm_eq) => `(tactic| rfl)
+syntax "comm_lemma" : tactic
+macro_rules | `(tactic| comm_lemma) => `(tactic| fail "no lemma")
+syntax "comm_ih" : tactic
+macro_rules | `(tactic| comm_ih) => `(tactic| fail "no ih")
+syntax "comm_simp" : tactic
+macro_rules | `(tactic| comm_simp) => `(tactic| fail "no simp")
+
+macro "comm_step" : tactic => `(tactic| first
+  | cases ‹_ + 1 = Nat.succ _›
+  | with_reducible exact Comm.pure rfl
+  | with_reducible exact Comm.fail _
+  | with_reducible exact Comm.throw _
+  | with_reducible exact Comm.fail_bind _
+  | with_reducible exact Comm.throw_bind _
+  | with_reducible exact Comm.unwrap_id _ _
+  | with_reducible exact Comm.unwrap _ _ _
+  | with_reducible exact insertError_comm _ _
+  | comm_lemma
+  | comm_ih
+  | assumption
+  | dsimp only [id_eq]
+  | comm_simp
+  | with_reducible refine Comm.bind (Comm.unwrap_id _ _) ?_
+  | with_reducible refine Comm.bind (Comm.unwrap _ _ _) ?_
+  | with_reducible refine Comm.bind (by assumption) ?_
+  | with_reducible refine Comm.bind (Comm.pure rfl) ?_
+  | with_reducible refine Comm.bind (g := id) ?_ ?_
+  | intro _
+  | apply Comm.ite
+  | cases ‹Ast.ForIterable›
+  | cases ‹Ast.ReturnSignature›
+  | split)
+
+macro "comm" : tactic => `(tactic| repeat' comm_step)
+
+theorem symStep_comm (site : String) (op : Op) : Comm id (symStep site op) (symStep site op) := by
+  refine ⟨fun c => ?_⟩
+  unfold symStep
+  simp only [erCtx]
+  show (StateT.bind _ _) _ = Except.map _ ((StateT.bind _ _) _)
+  unfold StateT.bind
+  simp only [get, getThe, MonadStateOf.get, StateT.get, bind, Except.bind, pure, Except.pure]
+  generalize c.symbolTable.step op = so
+  obtain ⟨t', o⟩ := so
+  cases o <;> rfl
+macro_rules | `(tactic| comm_lemma) => `(tactic| with_reducible exact symStep_comm _ _)
+
+theorem enterScope_comm (k : ScopeType) : Comm id (enterScope k) (enterScope k) := by
+  unfold enterScope; comm
+macro_rules | `(tactic| comm_lemma) => `(tactic| with_reducible exact enterScope_comm _)
+
+theorem exitScope_comm : Comm id exitScope exitScope := by
+  unfold exitScope; comm
+macro_rules | `(tactic| comm_lemma) => `(tactic| with_reducible exact exitScope_comm)
+
+theorem withScope_comm {α β} {g : α → β} (k : ScopeType) {x : M α} {y : M β} (h : Comm g x y) :
+    Comm g (withScope k x) (withScope k y) := by
+  unfold withScope; comm
+macro_rules | `(tactic| comm_lemma) => `(tactic| with_reducible apply withScope_comm)
+
+theorem currentScopeType_comm : Comm id currentScopeType currentScopeType := by
+  refine ⟨fun c => ?_⟩
+  unfold currentScopeType
+  show (StateT.bind _ _) _ = Except.map _ ((StateT.bind _ _) _)
+  unfold StateT.bind
+  simp only [get, getThe, MonadStateOf.get, StateT.get, bind, Except.bind, pure, Except.pure, erCtx]
+  cases c.symbolTable.stack <;> rfl
+macro_rules | `(tactic| comm_lemma) => `(tactic| with_reducible exact currentScopeType_comm)
+
+theorem inGlobalScope_comm : Comm id inGlobalScope inGlobalScope := by
+  unfold inGlobalScope; comm
+macro_rules | `(tactic| comm_lemma) => `(tactic| with_reducible exact inGlobalScope_comm)
+
+theorem newBinding_comm (n : String) (t : T) (sp : Ast.Span) :
+    Comm id (newBinding n t sp) (newBinding n t z) := by
+  unfold newBinding; comm
+macro_rules | `(tactic| comm_lemma) => `(tactic| with_reducible exact newBinding_comm _ _ _)
+
+theorem tableLookup_comm (n : String) : Comm id (tableLookup n) (tableLookup n) := by
+  unfold tableLookup; comm
+macro_rules | `(tactic| comm_lemma) => `(tactic| with_reducible exact tableLookup_comm _)
+
+theorem lookupSymbol_comm (n : String) (sp : Ast.Span) : Comm id (lookupSymbol n sp) (lookupSymbol n z) := by
+  unfold lookupSymbol; comm
+macro_rules | `(tactic| comm_lemma) => `(tactic| with_reducible exact lookupSymbol_comm _ _)
+
+theorem lookupGateSymbol_comm (n : String) (sp : Ast.Span) :
+    Comm id (lookupGateSymbol n sp) (lookupGateSymbol n z) := by
+  unfold lookupGateSymbol; comm
+macro_rules | `(tactic| comm_lemma) => `(tactic| with_reducible exact lookupGateSymbol_comm _ _)
+
+theorem insertConstValue_comm (id' : Nat) (v : TExpr) : Comm id (insertConstValue id' v) (insertConstValue id' v) := by
+  refine ⟨fun c => ?_⟩; rfl
+macro_rules | `(tactic| comm_lemma) => `(tactic| with_reducible exact insertConstValue_comm _ _)
+
+theorem getConstValue_comm (id' : Nat) : Comm id (getConstValue id') (getConstValue id') := by
+  refine ⟨fun c => ?_⟩; rfl
+macro_rules | `(tactic| comm_lemma) => `(tactic| with_reducible exact getConstValue_comm _)
+
+theorem pushAnnotation_comm (a : String) : Comm id (pushAnnotation a) (pushAnnotation a) := by
+  refine ⟨fun c => ?_⟩; rfl
+macro_rules | `(tactic| comm_lemma) => `(tactic| with_reducible exact pushAnnotation_comm _)
+
+theorem annotationsIsEmpty_comm : Comm id annotationsIsEmpty annotationsIsEmpty := by
+  refine ⟨fun c => ?_⟩; rfl
+macro_rules | `(tactic| comm_lemma) => `(tactic| with_reducible exact annotationsIsEmpty_comm)
+
+theorem takeAnnotations_comm : Comm id takeAnnotations takeAnnotations := by
+  refine ⟨fun c => ?_⟩; rfl
+macro_rules | `(tactic| comm_lemma) => `(tactic| with_reducible exact takeAnnotations_comm)
+
+theorem insertStmt_comm (s : Stmt) : Comm id (insertStmt s) (insertStmt s) := by
+  refine ⟨fun c => ?_⟩; rfl
+macro_rules | `(tactic| comm_lemma) => `(tactic| with_reducible exact insertStmt_comm _)
+
+theorem redeclLoop_comm (sp : Ast.Span) (ns : List String) : Comm id (redeclLoop sp ns) (redeclLoop z ns) := by
+  induction ns with
+  | nil => unfold redeclLoop; comm
+  | cons n ns ih => unfold redeclLoop; comm
+macro_rules | `(tactic| comm_lemma) => `(tactic| with_reducible exact redeclLoop_comm _ _)
+
+theorem bind_eq_of_ok' {α β} {x : M α} {f : α → M β} {c c1 : Ctx} {a : α} (h : x c = .ok (a, c1)) :
+    (x >>= f) c = f a c1 := by
+  show (StateT.bind x f) c = _
+  unfold StateT.bind
+  simp only [h, bind, Except.bind]
+
+theorem standardLibraryGates_eq (sp : Ast.Span) (c : Ctx) (g : SymTab × List Name)
+    (hg : c.symbolTable.standardLibraryGates = g) :
+    standardLibraryGates sp c = redeclLoop sp g.2 { c with symbolTable := g.1 } := by
+  unfold standardLibraryGates
+  rw [bind_eq_of_ok' (x := get) (a := c) (c1 := c) rfl]
+  simp only [hg]
+  rw [bind_eq_of_ok' (x := set _) (a := ⟨⟩) rfl]
+
+theorem standardLibraryGates_comm (sp : Ast.Span) :
+    Comm id (standardLibraryGates sp) (standardLibraryGates z) := by
+  refine ⟨fun c => ?_⟩
+  generalize hg : c.symbolTable.standardLibraryGates = g
+  rw [standardLibraryGates_eq sp c g hg, standardLibraryGates_eq z (erCtx c) g hg]
+  exact (redeclLoop_comm sp g.2).run { c with symbolTable := g.1 }
+macro_rules | `(tactic| comm_lemma) => `(tactic| with_reducible exact standardLibraryGates_comm _)
+
+theorem notImpl_comm (sp : Ast.Span) : Comm id (notImpl sp) (notImpl z) := by
+  unfold notImpl; comm
+macro_rules | `(tactic| comm_lemma) => `(tactic| with_reducible exact notImpl_comm _)
+
+/-! ### erase: simp lemmas -/
+
+theorem erOExpr_eq (o : Option Ast.Expr) : erOExpr o = o.map erExpr := by cases o <;> rfl
+theorem erExprs_eq (l : List Ast.Expr) : erExprs l = l.map erExpr := by
+  induction l with
+  | nil => rfl
+  | cons x xs ih => simp [erExprs, ih]
+theorem erOParen_eq (o : Option Ast.ParenExpr) : erOParen o = o.map erParen := by cases o <;> rfl
+theorem erODesignator_eq (o : Option Ast.Designator) : erODesignator o = o.map erDesignator := by cases o <;> rfl
+theorem erOScalarType_eq (o : Option Ast.ScalarType) : erOScalarType o = o.map erScalarType := by cases o <;> rfl
+theorem erOExprList_eq (o : Option Ast.ExpressionList) : erOExprList o = o.map erExprList := by cases o <;> rfl
+theorem erOIndexKind_eq (o : Option Ast.IndexKind) : erOIndexKind o = o.map erIndexKind := by cases o <;> rfl
+theorem erOIndexOp_eq (o : Option Ast.IndexOperator) : erOIndexOp o = o.map erIndexOp := by cases o <;> rfl
+theorem erIndexOps_eq (l : List Ast.IndexOperator) : erIndexOps l = l.map erIndexOp := by
+  induction l with
+  | nil => rfl
+  | cons x xs ih => simp [erIndexOps, ih]
+theorem erOGateOperand_eq (o : Option Ast.GateOperand) : erOGateOperand o = o.map erGateOperand := by cases o <;> rfl
+theorem erGateOperands_eq (l : List Ast.GateOperand) : erGateOperands l = l.map erGateOperand := by
+  induction l with
+  | nil => rfl
+  | cons x xs ih => simp [erGateOperands, ih]
+theorem erOQubitList_eq (o : Option Ast.QubitList) : erOQubitList o = o.map erQubitList := by cases o <;> rfl
+theorem erOArgList_eq (o : Option Ast.ArgList) : erOArgList o = o.map erArgList := by cases o <;> rfl
+theorem erOGateCall_eq (o : Option Ast.GateCallExpr) : erOGateCall o = o.map erGateCall := by cases o <;> rfl
+theorem erOGPhase_eq (o : Option Ast.GPhaseCallExpr) : erOGPhase o = o.map erGPhase := by cases o <;> rfl
+theorem erModifiers_eq (l : List Ast.Modifier) : erModifiers l = l.map erModifier := by
+  induction l with
+  | nil => rfl
+  | cons x xs ih => simp [erModifiers, ih]
+theorem erStmts_eq (l : List Ast.Stmt) : erStmts l = l.map erStmt := by
+  induction l with
+  | nil => rfl
+  | cons x xs ih => simp [erStmts, ih]
+theorem erOBlock_eq (o : Option Ast.BlockExpr) : erOBlock o = o.map erBlock := by cases o <;> rfl
+theorem erOBos_eq (o : Option Ast.BlockOrStmt) : erOBos o = o.map erBos := by cases o <;> rfl
+theorem erCases_eq (l : List Ast.CaseExpr) : erCases l = l.map erCase := by
+  induction l with
+  | nil => rfl
+  | cons x xs ih => simp [erCases, ih]
+
+theorem span_erParen (p : Ast.ParenExpr) : (erParen p).span = z := by cases p; rfl
+theorem span_erRange (p : Ast.RangeExpr) : (erRange p).span = z := by cases p; rfl
+theorem span_erDesignator (p : Ast.Designator) : (erDesignator p).span = z := by cases p; rfl
+theorem span_erIndexedIdent (p : Ast.IndexedIdentifier) : (erIndexedIdent p).span = z := by cases p; rfl
+theorem span_erQubitList (p : Ast.QubitList) : (erQubitList p).span = z := by cases p; rfl
+theorem span_erArgList (p : Ast.ArgList) : (erArgList p).span = z := by cases p; rfl
+theorem span_erGateCall (p : Ast.GateCallExpr) : (erGateCall p).span = z := by cases p; rfl
+theorem span_erGPhase (p : Ast.GPhaseCallExpr) : (erGPhase p).span = z := by cases p; rfl
+theorem span_erGateOperand (g : Ast.GateOperand) : (erGateOperand g).span = z := by
+  cases g <;> simp [erGateOperand, Ast.GateOperand.span, erHw, erIdent, span_erIndexedIdent]
+theorem span_erExpr (e : Ast.Expr) : (erExpr e).span = z := by
+  cases e <;> simp [erExpr, Ast.Expr.span, span_erParen, span_erRange, span_erIndexedIdent, span_erGateCall,
+    span_erGPhase, erLiteral, erIdent, erHw]
+
+
+@[simp] theorem erName_text (n : Ast.Name) : (erName n).text = n.text := rfl
+@[simp] theorem erName_span (n : Ast.Name) : (erName n).span = z := rfl
+@[simp] theorem erIdent_text (n : Ast.Identifier) : (erIdent n).text = n.text := rfl
+@[simp] theorem erIdent_span (n : Ast.Identifier) : (erIdent n).span = z := rfl
+@[simp] theorem erHw_text (n : Ast.HardwareQubit) : (erHw n).text = n.text := rfl
+@[simp] theorem erHw_span (n : Ast.HardwareQubit) : (erHw n).span = z := rfl
+@[simp] theorem erParam_text (n : Ast.Param) : (erParam n).text = n.text := rfl
+@[simp] theorem erParam_span (n : Ast.Param) : (erParam n).span = z := rfl
+@[simp] theorem erParamList_params (n : Ast.ParamList) : (erParamList n).params = n.params.map erParam := rfl
+@[simp] theorem erFilePath_toString (n : Ast.FilePath) : (erFilePath n).toString? = n.toString? := rfl
+@[simp] theorem erLiteral_kind (n : Ast.Literal) : (erLiteral n).kind = n.kind := rfl
+@[simp] theorem erLiteral_span (n : Ast.Literal) : (erLiteral n).span = z := rfl
+@[simp] theorem erTypedParam_paramType (p : Ast.TypedParam) : (erTypedParam p).paramType = p.paramType.map erParamType := rfl
+@[simp] theorem erTypedParam_old (p : Ast.TypedParam) : (erTypedParam p).oldTypedParam = p.oldTypedParam := rfl
+@[simp] theorem erTypedParam_name (p : Ast.TypedParam) : (erTypedParam p).name = p.name.map erName := rfl
+@[simp] theorem erTypedParam_span (p : Ast.TypedParam) : (erTypedParam p).span = z := rfl
+@[simp] theorem erTypedParamList_params (l : Ast.TypedParamList) : (erTypedParamList l).typedParams = l.typedParams.map erTypedParam := rfl
+@[simp] theorem erReturnSignature_st (r : Ast.ReturnSignature) : (erReturnSignature r).scalarType = r.scalarType.map erScalarType := by
+  simp [erReturnSignature, erOScalarType_eq]
+@[simp] theorem erQubitType_designator (q : Ast.QubitType) : (erQubitType q).designator = q.designator.map erDesignator := by
+  simp [erQubitType, erODesignator_eq]
+@[simp] theorem erForIterable_set (f : Ast.ForIterable) : (erForIterable f).setExpression = f.setExpression.map erSet := rfl
+@[simp] theorem erForIterable_range (f : Ast.ForIterable) : (erForIterable f).rangeExpr = f.rangeExpr.map erRange := rfl
+@[simp] theorem erForIterable_expr (f : Ast.ForIterable) : (erForIterable f).forIterableExpr = f.forIterableExpr.map erExpr := by
+  simp [erForIterable, erOExpr_eq]
+
+macro_rules | `(tactic| comm_simp) => `(tactic| simp only [erOExpr_eq, erExprs_eq, erOParen_eq, erODesignator_eq,
+  erOScalarType_eq, erOExprList_eq, erOIndexKind_eq, erOIndexOp_eq, erIndexOps_eq, erOGateOperand_eq,
+  erGateOperands_eq, erOQubitList_eq, erOArgList_eq, erOGateCall_eq, erOGPhase_eq, erModifiers_eq, erStmts_eq,
+  erOBlock_eq, erOBos_eq, erCases_eq, span_erParen, span_erRange, span_erDesignator, span_erIndexedIdent,
+  span_erQubitList, span_erArgList, span_erGateCall, span_erGPhase, span_erGateOperand, span_erExpr,
+  erName_text, erName_span, erIdent_text, erIdent_span, erHw_text, erHw_span, erParam_text, erParam_span,
+  erParamList_params, erFilePath_toString, erLiteral_kind, erLiteral_span, erTypedParam_paramType, erTypedParam_old,
+  erTypedParam_name, erTypedParam_span, erTypedParamList_params, erReturnSignature_st, erQubitType_designator,
+  erForIterable_set, erForIterable_range, erForIterable_expr,
+  Option.map_some, Option.map_none, List.map_cons, List.map_nil])
+
+/-! ### leaf functions -/
+
+theorem binaryOpToAsgType_comm (op : Ast.BinaryOp) : Comm id (binaryOpToAsgType op) (binaryOpToAsgType op) := by
+  unfold binaryOpToAsgType; comm
+macro_rules | `(tactic| comm_lemma) => `(tactic| with_reducible exact binaryOpToAsgType_comm _)
+
+theorem intNumberValue_comm (site text : String) : Comm id (intNumberValue site text) (intNumberValue site text) := by
+  unfold intNumberValue; comm
+macro_rules | `(tactic| comm_lemma) => `(tactic| with_reducible exact intNumberValue_comm _ _)
+
+theorem negativeFloat_comm (fmt : Option String) :
+    Comm id (negativeFloatNumberToAsgType fmt) (negativeFloatNumberToAsgType fmt) := by
+  unfold negativeFloatNumberToAsgType; comm
+macro_rules | `(tactic| comm_lemma) => `(tactic| with_reducible exact negativeFloat_comm _)
+
+theorem negativeInt_comm (text : String) : Comm id (negativeIntToAsgType text) (negativeIntToAsgType text) := by
+  unfold negativeIntToAsgType; comm
+macro_rules | `(tactic| comm_lemma) => `(tactic| with_reducible exact negativeInt_comm _)
+
+theorem literalToAsgTexpr_comm (l : Ast.Literal) :
+    Comm id (literalToAsgTexpr l) (literalToAsgTexpr (erLiteral l)) := by
+  unfold literalToAsgTexpr
+  comm
+macro_rules | `(tactic| comm_lemma) => `(tactic| with_reducible exact literalToAsgTexpr_comm _)
+macro_rules | `(tactic| comm_lemma) => `(tactic| (with_reducible refine Comm.of_eq (literalToAsgTexpr_comm _) ?_; comm_eq))
+
+theorem lookupIdentifier_comm (i : Ast.Identifier) :
+    Comm id (lookupIdentifier i) (lookupIdentifier (erIdent i)) := by
+  unfold lookupIdentifier; comm
+macro_rules | `(tactic| comm_lemma) => `(tactic| with_reducible exact lookupIdentifier_comm _)
+macro_rules | `(tactic| comm_lemma) => `(tactic| (with_reducible refine Comm.of_eq (lookupIdentifier_comm _) ?_; comm_eq))
+
+theorem designatorToAsg_comm (d : Option Ast.Designator) :
+    Comm id (designatorToAsg d) (designatorToAsg (d.map erDesignator)) := by
+  unfold designatorToAsg
+  rcases d with _ | ⟨sp, _ | e⟩
+  · simp only [Option.map_none, getAstDesignatorExpression]; comm
+  · simp only [Option.map_some, erDesignator, erOExpr, getAstDesignatorExpression]; comm
+  · cases e <;> simp only [Option.map_some, erDesignator, erOExpr, erExpr, getAstDesignatorExpression] <;> comm
+macro_rules | `(tactic| comm_lemma) => `(tactic| with_reducible exact designatorToAsg_comm _)
+macro_rules | `(tactic| comm_lemma) => `(tactic| (with_reducible refine Comm.of_eq (designatorToAsg_comm _) ?_; comm_eq))
+
+theorem scalarTypeToType_comm (st : Ast.ScalarType) (b : Bool) :
+    Comm id (scalarTypeToType st b) (scalarTypeToType (erScalarType st) b) := by
+  unfold scalarTypeToType
+  rcases st with ⟨sp, k, d, _ | ⟨sp', k', d', i'⟩⟩ <;> simp only [erScalarType, erOScalarType] <;> comm
+macro_rules | `(tactic| comm_lemma) => `(tactic| with_reducible exact scalarTypeToType_comm _ _)
+macro_rules | `(tactic| comm_lemma) => `(tactic| (with_reducible refine Comm.of_eq (scalarTypeToType_comm _ _) ?_; comm_eq))
+
+theorem paramTypeToType_comm (pt : Ast.ParamType) (b : Bool) :
+    Comm id (paramTypeToType pt b) (paramTypeToType (erParamType pt) b) := by
+  unfold paramTypeToType
+  cases pt <;> simp only [erParamType] <;> comm
+macro_rules | `(tactic| comm_lemma) => `(tactic| with_reducible exact paramTypeToType_comm _ _)
+macro_rules | `(tactic| comm_lemma) => `(tactic| (with_reducible refine Comm.of_eq (paramTypeToType_comm _ _) ?_; comm_eq))
+
+theorem declareClassicalHelper_comm (id' : SymbolIdResult) (i : Option TExpr) :
+    Comm id (declareClassicalHelper id' i) (declareClassicalHelper id' i) := by
+  unfold declareClassicalHelper; comm
+macro_rules | `(tactic| comm_lemma) => `(tactic| with_reducible exact declareClassicalHelper_comm _ _)
+
+theorem ioDeclaration_comm (a : Bool) (st : Option Ast.ScalarType) (n : Option Ast.Name) (i : Bool) :
+    Comm id (ioDeclarationStatementToAsgStmt a st n i)
+      (ioDeclarationStatementToAsgStmt a (st.map erScalarType) (n.map erName) i) := by
+  unfold ioDeclarationStatementToAsgStmt; comm
+macro_rules | `(tactic| comm_lemma) => `(tactic| with_reducible exact ioDeclaration_comm _ _ _ _)
+macro_rules | `(tactic| comm_lemma) => `(tactic| (with_reducible refine Comm.of_eq (ioDeclaration_comm _ _ _ _) ?_; comm_eq))
+
+theorem bindParams_comm (t : T) (ps : List Ast.Param) :
+    Comm id (bindParams t ps) (bindParams t (ps.map erParam)) := by
+  induction ps with
+  | nil => unfold bindParams; comm
+  | cons p ps ih => simp only [List.map_cons]; unfold bindParams; comm
+macro_rules | `(tactic| comm_lemma) => `(tactic| with_reducible exact bindParams_comm _ _)
+macro_rules | `(tactic| comm_lemma) => `(tactic| (with_reducible refine Comm.of_eq (bindParams_comm _ _) ?_; comm_eq))
+
+theorem bindParameterList_comm (l : Option Ast.ParamList) (t : T) :
+    Comm id (bindParameterList l t) (bindParameterList (l.map erParamList) t) := by
+  unfold bindParameterList
+  cases l <;> simp only [Option.map_some, Option.map_none] <;> comm
+macro_rules | `(tactic| comm_lemma) => `(tactic| with_reducible exact bindParameterList_comm _ _)
+macro_rules | `(tactic| comm_lemma) => `(tactic| (with_reducible refine Comm.of_eq (bindParameterList_comm _ _) ?_; comm_eq))
+
+theorem bindTypedParams_comm (ps : List Ast.TypedParam) :
+    Comm id (bindTypedParams ps) (bindTypedParams (ps.map erTypedParam)) := by
+  induction ps with
+  | nil => unfold bindTypedParams; comm
+  | cons p ps ih =>
+    obtain ⟨sp, pt, old, nm⟩ := p
+    simp only [List.map_cons]; unfold bindTypedParams
+    cases pt <;> simp only [erTypedParam_paramType, erTypedParam_old, erTypedParam_name, erTypedParam_span,
+      Option.map_some, Option.map_none] <;> comm
+macro_rules | `(tactic| comm_lemma) => `(tactic| with_reducible exact bindTypedParams_comm _)
+macro_rules | `(tactic| comm_lemma) => `(tactic| (with_reducible refine Comm.of_eq (bindTypedParams_comm _) ?_; comm_eq))
+
+theorem bindTypedParameterList_comm (l : Option Ast.TypedParamList) :
+    Comm id (bindTypedParameterList l) (bindTypedParameterList (l.map erTypedParamList)) := by
+  unfold bindTypedParameterList
+  cases l <;> simp only [Option.map_some, Option.map_none] <;> comm
+macro_rules | `(tactic| comm_lemma) => `(tactic| with_reducible exact bindTypedParameterList_comm _)
+macro_rules | `(tactic| comm_lemma) => `(tactic| (with_reducible refine Comm.of_eq (bindTypedParameterList_comm _) ?_; comm_eq))
+
+theorem notGlobalCheck_comm (sp : Ast.Span) : Comm id (notGlobalCheck sp) (notGlobalCheck z) := by
+  unfold notGlobalCheck; comm
+macro_rules | `(tactic| comm_lemma) => `(tactic| with_reducible exact notGlobalCheck_comm _)
+
+theorem gateNotGlobalCheck_comm (n : Option Ast.Name) :
+    Comm id (gateNotGlobalCheck n) (gateNotGlobalCheck (n.map erName)) := by
+  unfold gateNotGlobalCheck; comm
+macro_rules | `(tactic| comm_lemma) => `(tactic| with_reducible exact gateNotGlobalCheck_comm _)
+macro_rules | `(tactic| comm_lemma) => `(tactic| (with_reducible refine Comm.of_eq (gateNotGlobalCheck_comm _) ?_; comm_eq))
+
+theorem returnGlobalCheck_comm (sp : Ast.Span) : Comm id (returnGlobalCheck sp) (returnGlobalCheck z) := by
+  unfold returnGlobalCheck; comm
+macro_rules | `(tactic| comm_lemma) => `(tactic| with_reducible exact returnGlobalCheck_comm _)
+
+theorem delayDurationCheck_comm (d : TExpr) (sp : Ast.Span) :
+    Comm id (delayDurationCheck d sp) (delayDurationCheck d z) := by
+  unfold delayDurationCheck; comm
+macro_rules | `(tactic| comm_lemma) => `(tactic| with_reducible exact delayDurationCheck_comm _ _)
+
+theorem quantumBinopCheck_comm (l r : TExpr) (lhs rhs : Option Ast.Expr) :
+    Comm id (quantumBinopCheck l r lhs rhs) (quantumBinopCheck l r (lhs.map erExpr) (rhs.map erExpr)) := by
+  unfold quantumBinopCheck; comm
+macro_rules | `(tactic| comm_lemma) => `(tactic| with_reducible exact quantumBinopCheck_comm _ _ _ _)
+macro_rules | `(tactic| comm_lemma) => `(tactic| (with_reducible refine Comm.of_eq (quantumBinopCheck_comm _ _ _ _) ?_; comm_eq))
+
+theorem gateOperandIdentCheck_comm (t : T) (sp : Ast.Span) :
+    Comm id (gateOperandIdentCheck t sp) (gateOperandIdentCheck t z) := by
+  unfold gateOperandIdentCheck; comm
+macro_rules | `(tactic| comm_lemma) => `(tactic| with_reducible exact gateOperandIdentCheck_comm _ _)
+
+theorem gateOperandIndexedCheck_comm (t : T) (sp : Ast.Span) :
+    Comm id (gateOperandIndexedCheck t sp) (gateOperandIndexedCheck t z) := by
+  unfold gateOperandIndexedCheck; comm
+macro_rules | `(tactic| comm_lemma) => `(tactic| with_reducible exact gateOperandIndexedCheck_comm _ _)
+
+theorem gateCallCheck_comm (sp : Ast.Span) (ql : Option Ast.QubitList) (al : Option Ast.ArgList)
+    (g : Ast.Identifier) (r : SymbolIdResult) (t : T) (np nq : Nat) :
+    Comm id (gateCallCheck sp ql al g r t np nq)
+      (gateCallCheck z (ql.map erQubitList) (al.map erArgList) (erIdent g) r t np nq) := by
+  unfold gateCallCheck; comm
+macro_rules | `(tactic| comm_lemma) => `(tactic| with_reducible exact gateCallCheck_comm _ _ _ _ _ _ _ _)
+macro_rules | `(tactic| comm_lemma) => `(tactic| (with_reducible refine Comm.of_eq (gateCallCheck_comm _ _ _ _ _ _ _ _) ?_; comm_eq))
+
+theorem defArityCheck_comm (e n : Nat) (al : Option Ast.ArgList) :
+    Comm id (defArityCheck e n al) (defArityCheck e n (al.map erArgList)) := by
+  unfold defArityCheck; comm
+macro_rules | `(tactic| comm_lemma) => `(tactic| with_reducible exact defArityCheck_comm _ _ _)
+macro_rules | `(tactic| comm_lemma) => `(tactic| (with_reducible refine Comm.of_eq (defArityCheck_comm _ _ _) ?_; comm_eq))
+
+theorem mutateConstCheck_comm (ok : Bool) (t : T) (sp : Ast.Span) :
+    Comm id (mutateConstCheck ok t sp) (mutateConstCheck ok t z) := by
+  unfold mutateConstCheck; comm
+macro_rules | `(tactic| comm_lemma) => `(tactic| with_reducible exact mutateConstCheck_comm _ _ _)
+
+macro_rules | `(tactic| comm_simp) => `(tactic| simp only [erExpr, erOExpr, erExprs, erParen, erOParen, erRange, erDesignator, erODesignator, erScalarType, erOScalarType, erExprList, erOExprList, erSet, erIndexKind, erOIndexKind, erIndexOp, erOIndexOp, erIndexOps, erIndexedIdent, erGateOperand, erOGateOperand, erGateOperands, erQubitList, erOQubitList, erArgList, erOArgList, erGateCall, erOGateCall, erGPhase, erOGPhase, erModifier, erModifiers, erStmt, erStmts, erBlock, erOBlock, erBos, erOBos, erAccBos, erCase, erCases, erParamType])
+
+macro_rules | `(tactic| comm_eq) => `(tactic| ((repeat comm_simp); done))
+macro_rules | `(tactic| comm_eq) => `(tactic| ((repeat comm_simp); rfl))
+
+/-- erasure commutes with every function of the mutual block at one fuel -/
+structure AllComm (fuel : Nat) : Prop where
+  stmtToAsgStmt : ∀ (s : Ast.Stmt), Comm id (Oq3.Sema.stmtToAsgStmt fuel s) (Oq3.Sema.stmtToAsgStmt fuel (erStmt s))
+  caseExprsLoop : ∀ (cs : List Ast.CaseExpr), Comm id (Oq3.Sema.caseExprsLoop fuel cs) (Oq3.Sema.caseExprsLoop fuel (cs.map erCase))
+  exprStmtToAsgStmt : ∀ (e : Option Ast.Expr), Comm id (Oq3.Sema.exprStmtToAsgStmt fuel e) (Oq3.Sema.exprStmtToAsgStmt fuel (e.map erExpr))
+  modifiersLoop : ∀ (ms : List Ast.Modifier), Comm id (Oq3.Sema.modifiersLoop fuel ms) (Oq3.Sema.modifiersLoop fuel (ms.map erModifier))
+  parenExprToAsgTexpr : ∀ (p : Ast.ParenExpr), Comm id (Oq3.Sema.parenExprToAsgTexpr fuel p) (Oq3.Sema.parenExprToAsgTexpr fuel (erParen p))
+  exprToAsgTexpr : ∀ (e : Option Ast.Expr), Comm id (Oq3.Sema.exprToAsgTexpr fuel e) (Oq3.Sema.exprToAsgTexpr fuel (e.map erExpr))
+  setExpressionToAsgType : ∀ (s : Ast.SetExpression), Comm id (Oq3.Sema.setExpressionToAsgType fuel s) (Oq3.Sema.setExpressionToAsgType fuel (erSet s))
+  rangeExpressionToAsgType : ∀ (r : Ast.RangeExpr), Comm id (Oq3.Sema.rangeExpressionToAsgType fuel r) (Oq3.Sema.rangeExpressionToAsgType fuel (erRange r))
+  gateCallExprToAsgStmt : ∀ (g : Ast.GateCallExpr) (ms : List GateModifier), Comm id (Oq3.Sema.gateCallExprToAsgStmt fuel g ms) (Oq3.Sema.gateCallExprToAsgStmt fuel (erGateCall g) ms)
+  callExprToAsgTexpr : ∀ (sp : Ast.Span) (al : Option Ast.ArgList) (i : Option Ast.Identifier), Comm id (Oq3.Sema.callExprToAsgTexpr fuel sp al i) (Oq3.Sema.callExprToAsgTexpr fuel z (al.map erArgList) (i.map erIdent))
+  gateOperandToAsgTexpr : ∀ (g : Ast.GateOperand), Comm id (Oq3.Sema.gateOperandToAsgTexpr fuel g) (Oq3.Sema.gateOperandToAsgTexpr fuel (erGateOperand g))
+  indexOperatorToAsgType : ∀ (i : Ast.IndexOperator), Comm id (Oq3.Sema.indexOperatorToAsgType fuel i) (Oq3.Sema.indexOperatorToAsgType fuel (erIndexOp i))
+  expressionListToAsgType : ∀ (el : Ast.ExpressionList), Comm id (Oq3.Sema.expressionListToAsgType fuel el) (Oq3.Sema.expressionListToAsgType fuel (erExprList el))
+  qubitListToAsgTexpr : ∀ (ql : Option Ast.QubitList), Comm id (Oq3.Sema.qubitListToAsgTexpr fuel ql) (Oq3.Sema.qubitListToAsgTexpr fuel (ql.map erQubitList))
+  gateOperandsLoop : ∀ (gs : List Ast.GateOperand), Comm id (Oq3.Sema.gateOperandsLoop fuel gs) (Oq3.Sema.gateOperandsLoop fuel (gs.map erGateOperand))
+  expressionListToAsgTexpr : ∀ (el : Ast.ExpressionList), Comm id (Oq3.Sema.expressionListToAsgTexpr fuel el) (Oq3.Sema.expressionListToAsgTexpr fuel (erExprList el))
+  exprsLoop : ∀ (es : List Ast.Expr), Comm id (Oq3.Sema.exprsLoop fuel es) (Oq3.Sema.exprsLoop fuel (es.map erExpr))
+  blockExprToAsgStmtList : ∀ (b : Ast.BlockExpr), Comm id (Oq3.Sema.blockExprToAsgStmtList fuel b) (Oq3.Sema.blockExprToAsgStmtList fuel (erBlock b))
+  stmtsLoop : ∀ (ss : List Ast.Stmt), Comm id (Oq3.Sema.stmtsLoop fuel ss) (Oq3.Sema.stmtsLoop fuel (ss.map erStmt))
+  blockExprToAsgType : ∀ (b : Ast.BlockExpr), Comm id (Oq3.Sema.blockExprToAsgType fuel b) (Oq3.Sema.blockExprToAsgType fuel (erBlock b))
+  blockOrStmtToAsgType : ∀ (b : Ast.BlockOrStmt), Comm id (Oq3.Sema.blockOrStmtToAsgType fuel b) (Oq3.Sema.blockOrStmtToAsgType fuel (erBos b))
+  classicalDeclarationStatementToAsgStmt : ∀ (sp : Ast.Span) (a : Bool) (st : Option Ast.ScalarType) (k : Bool) (n : Option Ast.Name) (e : Option Ast.Expr), Comm id (Oq3.Sema.classicalDeclarationStatementToAsgStmt fuel sp a st k n e) (Oq3.Sema.classicalDeclarationStatementToAsgStmt fuel z a (st.map erScalarType) k (n.map erName) (e.map erExpr))
+  assignmentStmtToAsgStmt : ∀ (sp : Ast.Span) (i : Option Ast.Identifier) (rhs : Option Ast.Expr) (ii : Option Ast.IndexedIdentifier), Comm id (Oq3.Sema.assignmentStmtToAsgStmt fuel sp i rhs ii) (Oq3.Sema.assignmentStmtToAsgStmt fuel z (i.map erIdent) (rhs.map erExpr) (ii.map erIndexedIdent))
+  indexedIdentifierToAsgType : ∀ (ii : Ast.IndexedIdentifier), Comm id (Oq3.Sema.indexedIdentifierToAsgType fuel ii) (Oq3.Sema.indexedIdentifierToAsgType fuel (erIndexedIdent ii))
+  indexOperatorsLoop : ∀ (ixs : List Ast.IndexOperator), Comm id (Oq3.Sema.indexOperatorsLoop fuel ixs) (Oq3.Sema.indexOperatorsLoop fuel (ixs.map erIndexOp))
+
+set_option hygiene false in
+macro_rules | `(tactic| comm_ih) => `(tactic| first
+  | with_reducible exact h_stmtToAsgStmt _
+  | with_reducible exact h_caseExprsLoop _
+  | with_reducible exact h_exprStmtToAsgStmt _
+  | with_reducible exact h_modifiersLoop _
+  | with_reducible exact h_parenExprToAsgTexpr _
+  | with_reducible exact h_exprToAsgTexpr _
+  | with_reducible exact h_setExpressionToAsgType _
+  | with_reducible exact h_rangeExpressionToAsgType _
+  | with_reducible exact h_gateCallExprToAsgStmt _ _
+  | with_reducible exact h_callExprToAsgTexpr _ _ _
+  | with_reducible exact h_gateOperandToAsgTexpr _
+  | with_reducible exact h_indexOperatorToAsgType _
+  | with_reducible exact h_expressionListToAsgType _
+  | with_reducible exact h_qubitListToAsgTexpr _
+  | with_reducible exact h_gateOperandsLoop _
+  | with_reducible exact h_expressionListToAsgTexpr _
+  | with_reducible exact h_exprsLoop _
+  | with_reducible exact h_blockExprToAsgStmtList _
+  | with_reducible exact h_stmtsLoop _
+  | with_reducible exact h_blockExprToAsgType _
+  | with_reducible exact h_blockOrStmtToAsgType _
+  | with_reducible exact h_classicalDeclarationStatementToAsgStmt _ _ _ _ _ _
+  | with_reducible exact h_assignmentStmtToAsgStmt _ _ _ _
+  | with_reducible exact h_indexedIdentifierToAsgType _
+  | with_reducible exact h_indexOperatorsLoop _
+  | (with_reducible refine Comm.of_eq (h_stmtToAsgStmt _) ?_; comm_eq)
+  | (with_reducible refine Comm.of_eq (h_caseExprsLoop _) ?_; comm_eq)
+  | (with_reducible refine Comm.of_eq (h_exprStmtToAsgStmt _) ?_; comm_eq)
+  | (with_reducible refine Comm.of_eq (h_modifiersLoop _) ?_; comm_eq)
+  | (with_reducible refine Comm.of_eq (h_parenExprToAsgTexpr _) ?_; comm_eq)
+  | (with_reducible refine Comm.of_eq (h_exprToAsgTexpr _) ?_; comm_eq)
+  | (with_reducible refine Comm.of_eq (h_setExpressionToAsgType _) ?_; comm_eq)
+  | (with_reducible refine Comm.of_eq (h_rangeExpressionToAsgType _) ?_; comm_eq)
+  | (with_reducible refine Comm.of_eq (h_gateCallExprToAsgStmt _ _) ?_; comm_eq)
+  | (with_reducible refine Comm.of_eq (h_callExprToAsgTexpr _ _ _) ?_; comm_eq)
+  | (with_reducible refine Comm.of_eq (h_gateOperandToAsgTexpr _) ?_; comm_eq)
+  | (with_reducible refine Comm.of_eq (h_indexOperatorToAsgType _) ?_; comm_eq)
+  | (with_reducible refine Comm.of_eq (h_expressionListToAsgType _) ?_; comm_eq)
+  | (with_reducible refine Comm.of_eq (h_qubitListToAsgTexpr _) ?_; comm_eq)
+  | (with_reducible refine Comm.of_eq (h_gateOperandsLoop _) ?_; comm_eq)
+  | (with_reducible refine Comm.of_eq (h_expressionListToAsgTexpr _) ?_; comm_eq)
+  | (with_reducible refine Comm.of_eq (h_exprsLoop _) ?_; comm_eq)
+  | (with_reducible refine Comm.of_eq (h_blockExprToAsgStmtList _) ?_; comm_eq)
+  | (with_reducible refine Comm.of_eq (h_stmtsLoop _) ?_; comm_eq)
+  | (with_reducible refine Comm.of_eq (h_blockExprToAsgType _) ?_; comm_eq)
+  | (with_reducible refine Comm.of_eq (h_blockOrStmtToAsgType _) ?_; comm_eq)
+  | (with_reducible refine Comm.of_eq (h_classicalDeclarationStatementToAsgStmt _ _ _ _ _ _) ?_; comm_eq)
+  | (with_reducible refine Comm.of_eq (h_assignmentStmtToAsgStmt _ _ _ _) ?_; comm_eq)
+  | (with_reducible refine Comm.of_eq (h_indexedIdentifierToAsgType _) ?_; comm_eq)
+  | (with_reducible refine Comm.of_eq (h_indexOperatorsLoop _) ?_; comm_eq))
+
+set_option maxHeartbeats 4000000 in
+theorem stmtToAsgStmt_comm_step (fuel : Nat) (ih : AllComm fuel) (s : Ast.Stmt) :
+    Comm id (Oq3.Sema.stmtToAsgStmt (fuel + 1) s) (Oq3.Sema.stmtToAsgStmt (fuel + 1) (erStmt s)) := by
+  obtain ⟨h_stmtToAsgStmt, h_caseExprsLoop, h_exprStmtToAsgStmt, h_modifiersLoop, h_parenExprToAsgTexpr, h_exprToAsgTexpr, h_setExpressionToAsgType, h_rangeExpressionToAsgType, h_gateCallExprToAsgStmt, h_callExprToAsgTexpr, h_gateOperandToAsgTexpr, h_indexOperatorToAsgType, h_expressionListToAsgType, h_qubitListToAsgTexpr, h_gateOperandsLoop, h_expressionListToAsgTexpr, h_exprsLoop, h_blockExprToAsgStmtList, h_stmtsLoop, h_blockExprToAsgType, h_blockOrStmtToAsgType, h_classicalDeclarationStatementToAsgStmt, h_assignmentStmtToAsgStmt, h_indexedIdentifierToAsgType, h_indexOperatorsLoop⟩ := ih
+  unfold Oq3.Sema.stmtToAsgStmt
+  try simp only [withScope]
+  comm
+
+set_option maxHeartbeats 4000000 in
+theorem caseExprsLoop_comm_step (fuel : Nat) (ih : AllComm fuel) (cs : List Ast.CaseExpr) :
+    Comm id (Oq3.Sema.caseExprsLoop (fuel + 1) cs) (Oq3.Sema.caseExprsLoop (fuel + 1) (cs.map erCase)) := by
+  obtain ⟨h_stmtToAsgStmt, h_caseExprsLoop, h_exprStmtToAsgStmt, h_modifiersLoop, h_parenExprToAsgTexpr, h_exprToAsgTexpr, h_setExpressionToAsgType, h_rangeExpressionToAsgType, h_gateCallExprToAsgStmt, h_callExprToAsgTexpr, h_gateOperandToAsgTexpr, h_indexOperatorToAsgType, h_expressionListToAsgType, h_qubitListToAsgTexpr, h_gateOperandsLoop, h_expressionListToAsgTexpr, h_exprsLoop, h_blockExprToAsgStmtList, h_stmtsLoop, h_blockExprToAsgType, h_blockOrStmtToAsgType, h_classicalDeclarationStatementToAsgStmt, h_assignmentStmtToAsgStmt, h_indexedIdentifierToAsgType, h_indexOperatorsLoop⟩ := ih
+  rcases cs with _ | ⟨x, rest⟩ <;> simp only [List.map_cons, List.map_nil] <;> (unfold Oq3.Sema.caseExprsLoop; comm)
+
+set_option maxHeartbeats 4000000 in
+theorem exprStmtToAsgStmt_comm_step (fuel : Nat) (ih : AllComm fuel) (e : Option Ast.Expr) :
+    Comm id (Oq3.Sema.exprStmtToAsgStmt (fuel + 1) e) (Oq3.Sema.exprStmtToAsgStmt (fuel + 1) (e.map erExpr)) := by
+  obtain ⟨h_stmtToAsgStmt, h_caseExprsLoop, h_exprStmtToAsgStmt, h_modifiersLoop, h_parenExprToAsgTexpr, h_exprToAsgTexpr, h_setExpressionToAsgType, h_rangeExpressionToAsgType, h_gateCallExprToAsgStmt, h_callExprToAsgTexpr, h_gateOperandToAsgTexpr, h_indexOperatorToAsgType, h_expressionListToAsgType, h_qubitListToAsgTexpr, h_gateOperandsLoop, h_expressionListToAsgTexpr, h_exprsLoop, h_blockExprToAsgStmtList, h_stmtsLoop, h_blockExprToAsgType, h_blockOrStmtToAsgType, h_classicalDeclarationStatementToAsgStmt, h_assignmentStmtToAsgStmt, h_indexedIdentifierToAsgType, h_indexOperatorsLoop⟩ := ih
+  rcases e with _ | e
+  · unfold Oq3.Sema.exprStmtToAsgStmt; comm
+  cases e <;> (try cases ‹Ast.GPhaseCallExpr›) <;> (try cases ‹Option Ast.GateCallExpr›) <;>
+    (simp only [Option.map_some, erExpr]; unfold Oq3.Sema.exprStmtToAsgStmt; comm)
+
+set_option maxHeartbeats 4000000 in
+theorem modifiersLoop_comm_step (fuel : Nat) (ih : AllComm fuel) (ms : List Ast.Modifier) :
+    Comm id (Oq3.Sema.modifiersLoop (fuel + 1) ms) (Oq3.Sema.modifiersLoop (fuel + 1) (ms.map erModifier)) := by
+  obtain ⟨h_stmtToAsgStmt, h_caseExprsLoop, h_exprStmtToAsgStmt, h_modifiersLoop, h_parenExprToAsgTexpr, h_exprToAsgTexpr, h_setExpressionToAsgType, h_rangeExpressionToAsgType, h_gateCallExprToAsgStmt, h_callExprToAsgTexpr, h_gateOperandToAsgTexpr, h_indexOperatorToAsgType, h_expressionListToAsgType, h_qubitListToAsgTexpr, h_gateOperandsLoop, h_expressionListToAsgTexpr, h_exprsLoop, h_blockExprToAsgStmtList, h_stmtsLoop, h_blockExprToAsgType, h_blockOrStmtToAsgType, h_classicalDeclarationStatementToAsgStmt, h_assignmentStmtToAsgStmt, h_indexedIdentifierToAsgType, h_indexOperatorsLoop⟩ := ih
+  rcases ms with _ | ⟨x, rest⟩ <;> simp only [List.map_cons, List.map_nil] <;> (unfold Oq3.Sema.modifiersLoop; comm)
+
+set_option maxHeartbeats 4000000 in
+theorem parenExprToAsgTexpr_comm_step (fuel : Nat) (ih : AllComm fuel) (p : Ast.ParenExpr) :
+    Comm id (Oq3.Sema.parenExprToAsgTexpr (fuel + 1) p) (Oq3.Sema.parenExprToAsgTexpr (fuel + 1) (erParen p)) := by
+  obtain ⟨h_stmtToAsgStmt, h_caseExprsLoop, h_exprStmtToAsgStmt, h_modifiersLoop, h_parenExprToAsgTexpr, h_exprToAsgTexpr, h_setExpressionToAsgType, h_rangeExpressionToAsgType, h_gateCallExprToAsgStmt, h_callExprToAsgTexpr, h_gateOperandToAsgTexpr, h_indexOperatorToAsgType, h_expressionListToAsgType, h_qubitListToAsgTexpr, h_gateOperandsLoop, h_expressionListToAsgTexpr, h_exprsLoop, h_blockExprToAsgStmtList, h_stmtsLoop, h_blockExprToAsgType, h_blockOrStmtToAsgType, h_classicalDeclarationStatementToAsgStmt, h_assignmentStmtToAsgStmt, h_indexedIdentifierToAsgType, h_indexOperatorsLoop⟩ := ih
+  unfold Oq3.Sema.parenExprToAsgTexpr
+  comm
+
+set_option maxHeartbeats 4000000 in
+theorem exprToAsgTexpr_comm_step (fuel : Nat) (ih : AllComm fuel) (e : Option Ast.Expr) :
+    Comm id (Oq3.Sema.exprToAsgTexpr (fuel + 1) e) (Oq3.Sema.exprToAsgTexpr (fuel + 1) (e.map erExpr)) := by
+  obtain ⟨h_stmtToAsgStmt, h_caseExprsLoop, h_exprStmtToAsgStmt, h_modifiersLoop, h_parenExprToAsgTexpr, h_exprToAsgTexpr, h_setExpressionToAsgType, h_rangeExpressionToAsgType, h_gateCallExprToAsgStmt, h_callExprToAsgTexpr, h_gateOperandToAsgTexpr, h_indexOperatorToAsgType, h_expressionListToAsgType, h_qubitListToAsgTexpr, h_gateOperandsLoop, h_expressionListToAsgTexpr, h_exprsLoop, h_blockExprToAsgStmtList, h_stmtsLoop, h_blockExprToAsgType, h_blockOrStmtToAsgType, h_classicalDeclarationStatementToAsgStmt, h_assignmentStmtToAsgStmt, h_indexedIdentifierToAsgType, h_indexOperatorsLoop⟩ := ih
+  rcases e with _ | e
+  · unfold Oq3.Sema.exprToAsgTexpr; comm
+  cases e
+  case prefixExpr sp op operand =>
+    rcases operand with _ | o
+    · simp only [Option.map_some, Option.map_none, erExpr, erOExpr]; unfold Oq3.Sema.exprToAsgTexpr; comm
+    · cases o <;> (simp only [Option.map_some, erExpr, erOExpr]; unfold Oq3.Sema.exprToAsgTexpr; comm)
+  all_goals (try cases ‹Ast.UnsupportedExprKind›)
+  all_goals (simp only [Option.map_some, erExpr]; unfold Oq3.Sema.exprToAsgTexpr; comm)
+
+set_option maxHeartbeats 4000000 in
+theorem setExpressionToAsgType_comm_step (fuel : Nat) (ih : AllComm fuel) (s : Ast.SetExpression) :
+    Comm id (Oq3.Sema.setExpressionToAsgType (fuel + 1) s) (Oq3.Sema.setExpressionToAsgType (fuel + 1) (erSet s)) := by
+  obtain ⟨h_stmtToAsgStmt, h_caseExprsLoop, h_exprStmtToAsgStmt, h_modifiersLoop, h_parenExprToAsgTexpr, h_exprToAsgTexpr, h_setExpressionToAsgType, h_rangeExpressionToAsgType, h_gateCallExprToAsgStmt, h_callExprToAsgTexpr, h_gateOperandToAsgTexpr, h_indexOperatorToAsgType, h_expressionListToAsgType, h_qubitListToAsgTexpr, h_gateOperandsLoop, h_expressionListToAsgTexpr, h_exprsLoop, h_blockExprToAsgStmtList, h_stmtsLoop, h_blockExprToAsgType, h_blockOrStmtToAsgType, h_classicalDeclarationStatementToAsgStmt, h_assignmentStmtToAsgStmt, h_indexedIdentifierToAsgType, h_indexOperatorsLoop⟩ := ih
+  unfold Oq3.Sema.setExpressionToAsgType
+  comm
+
+set_option maxHeartbeats 4000000 in
+theorem rangeExpressionToAsgType_comm_step (fuel : Nat) (ih : AllComm fuel) (r : Ast.RangeExpr) :
+    Comm id (Oq3.Sema.rangeExpressionToAsgType (fuel + 1) r) (Oq3.Sema.rangeExpressionToAsgType (fuel + 1) (erRange r)) := by
+  obtain ⟨h_stmtToAsgStmt, h_caseExprsLoop, h_exprStmtToAsgStmt, h_modifiersLoop, h_parenExprToAsgTexpr, h_exprToAsgTexpr, h_setExpressionToAsgType, h_rangeExpressionToAsgType, h_gateCallExprToAsgStmt, h_callExprToAsgTexpr, h_gateOperandToAsgTexpr, h_indexOperatorToAsgType, h_expressionListToAsgType, h_qubitListToAsgTexpr, h_gateOperandsLoop, h_expressionListToAsgTexpr, h_exprsLoop, h_blockExprToAsgStmtList, h_stmtsLoop, h_blockExprToAsgType, h_blockOrStmtToAsgType, h_classicalDeclarationStatementToAsgStmt, h_assignmentStmtToAsgStmt, h_indexedIdentifierToAsgType, h_indexOperatorsLoop⟩ := ih
+  unfold Oq3.Sema.rangeExpressionToAsgType
+  comm
+
+set_option maxHeartbeats 4000000 in
+theorem gateCallExprToAsgStmt_comm_step (fuel : Nat) (ih : AllComm fuel) (g : Ast.GateCallExpr) (ms : List GateModifier) :
+    Comm id (Oq3.Sema.gateCallExprToAsgStmt (fuel + 1) g ms) (Oq3.Sema.gateCallExprToAsgStmt (fuel + 1) (erGateCall g) ms) := by
+  obtain ⟨h_stmtToAsgStmt, h_caseExprsLoop, h_exprStmtToAsgStmt, h_modifiersLoop, h_parenExprToAsgTexpr, h_exprToAsgTexpr, h_setExpressionToAsgType, h_rangeExpressionToAsgType, h_gateCallExprToAsgStmt, h_callExprToAsgTexpr, h_gateOperandToAsgTexpr, h_indexOperatorToAsgType, h_expressionListToAsgType, h_qubitListToAsgTexpr, h_gateOperandsLoop, h_expressionListToAsgTexpr, h_exprsLoop, h_blockExprToAsgStmtList, h_stmtsLoop, h_blockExprToAsgType, h_blockOrStmtToAsgType, h_classicalDeclarationStatementToAsgStmt, h_assignmentStmtToAsgStmt, h_indexedIdentifierToAsgType, h_indexOperatorsLoop⟩ := ih
+  unfold Oq3.Sema.gateCallExprToAsgStmt
+  comm
+
+set_option maxHeartbeats 4000000 in
+theorem callExprToAsgTexpr_comm_step (fuel : Nat) (ih : AllComm fuel) (sp : Ast.Span) (al : Option Ast.ArgList) (i : Option Ast.Identifier) :
+    Comm id (Oq3.Sema.callExprToAsgTexpr (fuel + 1) sp al i) (Oq3.Sema.callExprToAsgTexpr (fuel + 1) z (al.map erArgList) (i.map erIdent)) := by
+  obtain ⟨h_stmtToAsgStmt, h_caseExprsLoop, h_exprStmtToAsgStmt, h_modifiersLoop, h_parenExprToAsgTexpr, h_exprToAsgTexpr, h_setExpressionToAsgType, h_rangeExpressionToAsgType, h_gateCallExprToAsgStmt, h_callExprToAsgTexpr, h_gateOperandToAsgTexpr, h_indexOperatorToAsgType, h_expressionListToAsgType, h_qubitListToAsgTexpr, h_gateOperandsLoop, h_expressionListToAsgTexpr, h_exprsLoop, h_blockExprToAsgStmtList, h_stmtsLoop, h_blockExprToAsgType, h_blockOrStmtToAsgType, h_classicalDeclarationStatementToAsgStmt, h_assignmentStmtToAsgStmt, h_indexedIdentifierToAsgType, h_indexOperatorsLoop⟩ := ih
+  unfold Oq3.Sema.callExprToAsgTexpr
+  comm
+
+set_option maxHeartbeats 4000000 in
+theorem gateOperandToAsgTexpr_comm_step (fuel : Nat) (ih : AllComm fuel) (g : Ast.GateOperand) :
+    Comm id (Oq3.Sema.gateOperandToAsgTexpr (fuel + 1) g) (Oq3.Sema.gateOperandToAsgTexpr (fuel + 1) (erGateOperand g)) := by
+  obtain ⟨h_stmtToAsgStmt, h_caseExprsLoop, h_exprStmtToAsgStmt, h_modifiersLoop, h_parenExprToAsgTexpr, h_exprToAsgTexpr, h_setExpressionToAsgType, h_rangeExpressionToAsgType, h_gateCallExprToAsgStmt, h_callExprToAsgTexpr, h_gateOperandToAsgTexpr, h_indexOperatorToAsgType, h_expressionListToAsgType, h_qubitListToAsgTexpr, h_gateOperandsLoop, h_expressionListToAsgTexpr, h_exprsLoop, h_blockExprToAsgStmtList, h_stmtsLoop, h_blockExprToAsgType, h_blockOrStmtToAsgType, h_classicalDeclarationStatementToAsgStmt, h_assignmentStmtToAsgStmt, h_indexedIdentifierToAsgType, h_indexOperatorsLoop⟩ := ih
+  unfold Oq3.Sema.gateOperandToAsgTexpr
+  comm
+
+set_option maxHeartbeats 4000000 in
+theorem indexOperatorToAsgType_comm_step (fuel : Nat) (ih : AllComm fuel) (i : Ast.IndexOperator) :
+    Comm id (Oq3.Sema.indexOperatorToAsgType (fuel + 1) i) (Oq3.Sema.indexOperatorToAsgType (fuel + 1) (erIndexOp i)) := by
+  obtain ⟨h_stmtToAsgStmt, h_caseExprsLoop, h_exprStmtToAsgStmt, h_modifiersLoop, h_parenExprToAsgTexpr, h_exprToAsgTexpr, h_setExpressionToAsgType, h_rangeExpressionToAsgType, h_gateCallExprToAsgStmt, h_callExprToAsgTexpr, h_gateOperandToAsgTexpr, h_indexOperatorToAsgType, h_expressionListToAsgType, h_qubitListToAsgTexpr, h_gateOperandsLoop, h_expressionListToAsgTexpr, h_exprsLoop, h_blockExprToAsgStmtList, h_stmtsLoop, h_blockExprToAsgType, h_blockOrStmtToAsgType, h_classicalDeclarationStatementToAsgStmt, h_assignmentStmtToAsgStmt, h_indexedIdentifierToAsgType, h_indexOperatorsLoop⟩ := ih
+  unfold Oq3.Sema.indexOperatorToAsgType
+  comm
+
+set_option maxHeartbeats 4000000 in
+theorem expressionListToAsgType_comm_step (fuel : Nat) (ih : AllComm fuel) (el : Ast.ExpressionList) :
+    Comm id (Oq3.Sema.expressionListToAsgType (fuel + 1) el) (Oq3.Sema.expressionListToAsgType (fuel + 1) (erExprList el)) := by
+  obtain ⟨h_stmtToAsgStmt, h_caseExprsLoop, h_exprStmtToAsgStmt, h_modifiersLoop, h_parenExprToAsgTexpr, h_exprToAsgTexpr, h_setExpressionToAsgType, h_rangeExpressionToAsgType, h_gateCallExprToAsgStmt, h_callExprToAsgTexpr, h_gateOperandToAsgTexpr, h_indexOperatorToAsgType, h_expressionListToAsgType, h_qubitListToAsgTexpr, h_gateOperandsLoop, h_expressionListToAsgTexpr, h_exprsLoop, h_blockExprToAsgStmtList, h_stmtsLoop, h_blockExprToAsgType, h_blockOrStmtToAsgType, h_classicalDeclarationStatementToAsgStmt, h_assignmentStmtToAsgStmt, h_indexedIdentifierToAsgType, h_indexOperatorsLoop⟩ := ih
+  unfold Oq3.Sema.expressionListToAsgType
+  comm
+
+set_option maxHeartbeats 4000000 in
+theorem qubitListToAsgTexpr_comm_step (fuel : Nat) (ih : AllComm fuel) (ql : Option Ast.QubitList) :
+    Comm id (Oq3.Sema.qubitListToAsgTexpr (fuel + 1) ql) (Oq3.Sema.qubitListToAsgTexpr (fuel + 1) (ql.map erQubitList)) := by
+  obtain ⟨h_stmtToAsgStmt, h_caseExprsLoop, h_exprStmtToAsgStmt, h_modifiersLoop, h_parenExprToAsgTexpr, h_exprToAsgTexpr, h_setExpressionToAsgType, h_rangeExpressionToAsgType, h_gateCallExprToAsgStmt, h_callExprToAsgTexpr, h_gateOperandToAsgTexpr, h_indexOperatorToAsgType, h_expressionListToAsgType, h_qubitListToAsgTexpr, h_gateOperandsLoop, h_expressionListToAsgTexpr, h_exprsLoop, h_blockExprToAsgStmtList, h_stmtsLoop, h_blockExprToAsgType, h_blockOrStmtToAsgType, h_classicalDeclarationStatementToAsgStmt, h_assignmentStmtToAsgStmt, h_indexedIdentifierToAsgType, h_indexOperatorsLoop⟩ := ih
+  unfold Oq3.Sema.qubitListToAsgTexpr
+  comm
+
+set_option maxHeartbeats 4000000 in
+theorem gateOperandsLoop_comm_step (fuel : Nat) (ih : AllComm fuel) (gs : List Ast.GateOperand) :
+    Comm id (Oq3.Sema.gateOperandsLoop (fuel + 1) gs) (Oq3.Sema.gateOperandsLoop (fuel + 1) (gs.map erGateOperand)) := by
+  obtain ⟨h_stmtToAsgStmt, h_caseExprsLoop, h_exprStmtToAsgStmt, h_modifiersLoop, h_parenExprToAsgTexpr, h_exprToAsgTexpr, h_setExpressionToAsgType, h_rangeExpressionToAsgType, h_gateCallExprToAsgStmt, h_callExprToAsgTexpr, h_gateOperandToAsgTexpr, h_indexOperatorToAsgType, h_expressionListToAsgType, h_qubitListToAsgTexpr, h_gateOperandsLoop, h_expressionListToAsgTexpr, h_exprsLoop, h_blockExprToAsgStmtList, h_stmtsLoop, h_blockExprToAsgType, h_blockOrStmtToAsgType, h_classicalDeclarationStatementToAsgStmt, h_assignmentStmtToAsgStmt, h_indexedIdentifierToAsgType, h_indexOperatorsLoop⟩ := ih
+  rcases gs with _ | ⟨x, rest⟩ <;> simp only [List.map_cons, List.map_nil] <;> (unfold Oq3.Sema.gateOperandsLoop; comm)
+
+set_option maxHeartbeats 4000000 in
+theorem expressionListToAsgTexpr_comm_step (fuel : Nat) (ih : AllComm fuel) (el : Ast.ExpressionList) :
+    Comm id (Oq3.Sema.expressionListToAsgTexpr (fuel + 1) el) (Oq3.Sema.expressionListToAsgTexpr (fuel + 1) (erExprList el)) := by
+  obtain ⟨h_stmtToAsgStmt, h_caseExprsLoop, h_exprStmtToAsgStmt, h_modifiersLoop, h_parenExprToAsgTexpr, h_exprToAsgTexpr, h_setExpressionToAsgType, h_rangeExpressionToAsgType, h_gateCallExprToAsgStmt, h_callExprToAsgTexpr, h_gateOperandToAsgTexpr, h_indexOperatorToAsgType, h_expressionListToAsgType, h_qubitListToAsgTexpr, h_gateOperandsLoop, h_expressionListToAsgTexpr, h_exprsLoop, h_blockExprToAsgStmtList, h_stmtsLoop, h_blockExprToAsgType, h_blockOrStmtToAsgType, h_classicalDeclarationStatementToAsgStmt, h_assignmentStmtToAsgStmt, h_indexedIdentifierToAsgType, h_indexOperatorsLoop⟩ := ih
+  unfold Oq3.Sema.expressionListToAsgTexpr
+  comm
+
+set_option maxHeartbeats 4000000 in
+theorem exprsLoop_comm_step (fuel : Nat) (ih : AllComm fuel) (es : List Ast.Expr) :
+    Comm id (Oq3.Sema.exprsLoop (fuel + 1) es) (Oq3.Sema.exprsLoop (fuel + 1) (es.map erExpr)) := by
+  obtain ⟨h_stmtToAsgStmt, h_caseExprsLoop, h_exprStmtToAsgStmt, h_modifiersLoop, h_parenExprToAsgTexpr, h_exprToAsgTexpr, h_setExpressionToAsgType, h_rangeExpressionToAsgType, h_gateCallExprToAsgStmt, h_callExprToAsgTexpr, h_gateOperandToAsgTexpr, h_indexOperatorToAsgType, h_expressionListToAsgType, h_qubitListToAsgTexpr, h_gateOperandsLoop, h_expressionListToAsgTexpr, h_exprsLoop, h_blockExprToAsgStmtList, h_stmtsLoop, h_blockExprToAsgType, h_blockOrStmtToAsgType, h_classicalDeclarationStatementToAsgStmt, h_assignmentStmtToAsgStmt, h_indexedIdentifierToAsgType, h_indexOperatorsLoop⟩ := ih
+  rcases es with _ | ⟨x, rest⟩ <;> simp only [List.map_cons, List.map_nil] <;> (unfold Oq3.Sema.exprsLoop; comm)
+
+set_option maxHeartbeats 4000000 in
+theorem blockExprToAsgStmtList_comm_step (fuel : Nat) (ih : AllComm fuel) (b : Ast.BlockExpr) :
+    Comm id (Oq3.Sema.blockExprToAsgStmtList (fuel + 1) b) (Oq3.Sema.blockExprToAsgStmtList (fuel + 1) (erBlock b)) := by
+  obtain ⟨h_stmtToAsgStmt, h_caseExprsLoop, h_exprStmtToAsgStmt, h_modifiersLoop, h_parenExprToAsgTexpr, h_exprToAsgTexpr, h_setExpressionToAsgType, h_rangeExpressionToAsgType, h_gateCallExprToAsgStmt, h_callExprToAsgTexpr, h_gateOperandToAsgTexpr, h_indexOperatorToAsgType, h_expressionListToAsgType, h_qubitListToAsgTexpr, h_gateOperandsLoop, h_expressionListToAsgTexpr, h_exprsLoop, h_blockExprToAsgStmtList, h_stmtsLoop, h_blockExprToAsgType, h_blockOrStmtToAsgType, h_classicalDeclarationStatementToAsgStmt, h_assignmentStmtToAsgStmt, h_indexedIdentifierToAsgType, h_indexOperatorsLoop⟩ := ih
+  unfold Oq3.Sema.blockExprToAsgStmtList
+  comm
+
+set_option maxHeartbeats 4000000 in
+theorem stmtsLoop_comm_step (fuel : Nat) (ih : AllComm fuel) (ss : List Ast.Stmt) :
+    Comm id (Oq3.Sema.stmtsLoop (fuel + 1) ss) (Oq3.Sema.stmtsLoop (fuel + 1) (ss.map erStmt)) := by
+  obtain ⟨h_stmtToAsgStmt, h_caseExprsLoop, h_exprStmtToAsgStmt, h_modifiersLoop, h_parenExprToAsgTexpr, h_exprToAsgTexpr, h_setExpressionToAsgType, h_rangeExpressionToAsgType, h_gateCallExprToAsgStmt, h_callExprToAsgTexpr, h_gateOperandToAsgTexpr, h_indexOperatorToAsgType, h_expressionListToAsgType, h_qubitListToAsgTexpr, h_gateOperandsLoop, h_expressionListToAsgTexpr, h_exprsLoop, h_blockExprToAsgStmtList, h_stmtsLoop, h_blockExprToAsgType, h_blockOrStmtToAsgType, h_classicalDeclarationStatementToAsgStmt, h_assignmentStmtToAsgStmt, h_indexedIdentifierToAsgType, h_indexOperatorsLoop⟩ := ih
+  rcases ss with _ | ⟨x, rest⟩ <;> simp only [List.map_cons, List.map_nil] <;> (unfold Oq3.Sema.stmtsLoop; comm)
+
+set_option maxHeartbeats 4000000 in
+theorem blockExprToAsgType_comm_step (fuel : Nat) (ih : AllComm fuel) (b : Ast.BlockExpr) :
+    Comm id (Oq3.Sema.blockExprToAsgType (fuel + 1) b) (Oq3.Sema.blockExprToAsgType (fuel + 1) (erBlock b)) := by
+  obtain ⟨h_stmtToAsgStmt, h_caseExprsLoop, h_exprStmtToAsgStmt, h_modifiersLoop, h_parenExprToAsgTexpr, h_exprToAsgTexpr, h_setExpressionToAsgType, h_rangeExpressionToAsgType, h_gateCallExprToAsgStmt, h_callExprToAsgTexpr, h_gateOperandToAsgTexpr, h_indexOperatorToAsgType, h_expressionListToAsgType, h_qubitListToAsgTexpr, h_gateOperandsLoop, h_expressionListToAsgTexpr, h_exprsLoop, h_blockExprToAsgStmtList, h_stmtsLoop, h_blockExprToAsgType, h_blockOrStmtToAsgType, h_classicalDeclarationStatementToAsgStmt, h_assignmentStmtToAsgStmt, h_indexedIdentifierToAsgType, h_indexOperatorsLoop⟩ := ih
+  unfold Oq3.Sema.blockExprToAsgType
+  comm
+
+set_option maxHeartbeats 4000000 in
+theorem blockOrStmtToAsgType_comm_step (fuel : Nat) (ih : AllComm fuel) (b : Ast.BlockOrStmt) :
+    Comm id (Oq3.Sema.blockOrStmtToAsgType (fuel + 1) b) (Oq3.Sema.blockOrStmtToAsgType (fuel + 1) (erBos b)) := by
+  obtain ⟨h_stmtToAsgStmt, h_caseExprsLoop, h_exprStmtToAsgStmt, h_modifiersLoop, h_parenExprToAsgTexpr, h_exprToAsgTexpr, h_setExpressionToAsgType, h_rangeExpressionToAsgType, h_gateCallExprToAsgStmt, h_callExprToAsgTexpr, h_gateOperandToAsgTexpr, h_indexOperatorToAsgType, h_expressionListToAsgType, h_qubitListToAsgTexpr, h_gateOperandsLoop, h_expressionListToAsgTexpr, h_exprsLoop, h_blockExprToAsgStmtList, h_stmtsLoop, h_blockExprToAsgType, h_blockOrStmtToAsgType, h_classicalDeclarationStatementToAsgStmt, h_assignmentStmtToAsgStmt, h_indexedIdentifierToAsgType, h_indexOperatorsLoop⟩ := ih
+  unfold Oq3.Sema.blockOrStmtToAsgType
+  comm
+
+set_option maxHeartbeats 4000000 in
+theorem classicalDeclarationStatementToAsgStmt_comm_step (fuel : Nat) (ih : AllComm fuel) (sp : Ast.Span) (a : Bool) (st : Option Ast.ScalarType) (k : Bool) (n : Option Ast.Name) (e : Option Ast.Expr) :
+    Comm id (Oq3.Sema.classicalDeclarationStatementToAsgStmt (fuel + 1) sp a st k n e) (Oq3.Sema.classicalDeclarationStatementToAsgStmt (fuel + 1) z a (st.map erScalarType) k (n.map erName) (e.map erExpr)) := by
+  obtain ⟨h_stmtToAsgStmt, h_caseExprsLoop, h_exprStmtToAsgStmt, h_modifiersLoop, h_parenExprToAsgTexpr, h_exprToAsgTexpr, h_setExpressionToAsgType, h_rangeExpressionToAsgType, h_gateCallExprToAsgStmt, h_callExprToAsgTexpr, h_gateOperandToAsgTexpr, h_indexOperatorToAsgType, h_expressionListToAsgType, h_qubitListToAsgTexpr, h_gateOperandsLoop, h_expressionListToAsgTexpr, h_exprsLoop, h_blockExprToAsgStmtList, h_stmtsLoop, h_blockExprToAsgType, h_blockOrStmtToAsgType, h_classicalDeclarationStatementToAsgStmt, h_assignmentStmtToAsgStmt, h_indexedIdentifierToAsgType, h_indexOperatorsLoop⟩ := ih
+  unfold Oq3.Sema.classicalDeclarationStatementToAsgStmt
+  comm
+
+set_option maxHeartbeats 4000000 in
+theorem assignmentStmtToAsgStmt_comm_step (fuel : Nat) (ih : AllComm fuel) (sp : Ast.Span) (i : Option Ast.Identifier) (rhs : Option Ast.Expr) (ii : Option Ast.IndexedIdentifier) :
+    Comm id (Oq3.Sema.assignmentStmtToAsgStmt (fuel + 1) sp i rhs ii) (Oq3.Sema.assignmentStmtToAsgStmt (fuel + 1) z (i.map erIdent) (rhs.map erExpr) (ii.map erIndexedIdent)) := by
+  obtain ⟨h_stmtToAsgStmt, h_caseExprsLoop, h_exprStmtToAsgStmt, h_modifiersLoop, h_parenExprToAsgTexpr, h_exprToAsgTexpr, h_setExpressionToAsgType, h_rangeExpressionToAsgType, h_gateCallExprToAsgStmt, h_callExprToAsgTexpr, h_gateOperandToAsgTexpr, h_indexOperatorToAsgType, h_expressionListToAsgType, h_qubitListToAsgTexpr, h_gateOperandsLoop, h_expressionListToAsgTexpr, h_exprsLoop, h_blockExprToAsgStmtList, h_stmtsLoop, h_blockExprToAsgType, h_blockOrStmtToAsgType, h_classicalDeclarationStatementToAsgStmt, h_assignmentStmtToAsgStmt, h_indexedIdentifierToAsgType, h_indexOperatorsLoop⟩ := ih
+  unfold Oq3.Sema.assignmentStmtToAsgStmt
+  comm
+
+set_option maxHeartbeats 4000000 in
+theorem indexedIdentifierToAsgType_comm_step (fuel : Nat) (ih : AllComm fuel) (ii : Ast.IndexedIdentifier) :
+    Comm id (Oq3.Sema.indexedIdentifierToAsgType (fuel + 1) ii) (Oq3.Sema.indexedIdentifierToAsgType (fuel + 1) (erIndexedIdent ii)) := by
+  obtain ⟨h_stmtToAsgStmt, h_caseExprsLoop, h_exprStmtToAsgStmt, h_modifiersLoop, h_parenExprToAsgTexpr, h_exprToAsgTexpr, h_setExpressionToAsgType, h_rangeExpressionToAsgType, h_gateCallExprToAsgStmt, h_callExprToAsgTexpr, h_gateOperandToAsgTexpr, h_indexOperatorToAsgType, h_expressionListToAsgType, h_qubitListToAsgTexpr, h_gateOperandsLoop, h_expressionListToAsgTexpr, h_exprsLoop, h_blockExprToAsgStmtList, h_stmtsLoop, h_blockExprToAsgType, h_blockOrStmtToAsgType, h_classicalDeclarationStatementToAsgStmt, h_assignmentStmtToAsgStmt, h_indexedIdentifierToAsgType, h_indexOperatorsLoop⟩ := ih
+  unfold Oq3.Sema.indexedIdentifierToAsgType
+  comm
+
+set_option maxHeartbeats 4000000 in
+theorem indexOperatorsLoop_comm_step (fuel : Nat) (ih : AllComm fuel) (ixs : List Ast.IndexOperator) :
+    Comm id (Oq3.Sema.indexOperatorsLoop (fuel + 1) ixs) (Oq3.Sema.indexOperatorsLoop (fuel + 1) (ixs.map erIndexOp)) := by
+  obtain ⟨h_stmtToAsgStmt, h_caseExprsLoop, h_exprStmtToAsgStmt, h_modifiersLoop, h_parenExprToAsgTexpr, h_exprToAsgTexpr, h_setExpressionToAsgType, h_rangeExpressionToAsgType, h_gateCallExprToAsgStmt, h_callExprToAsgTexpr, h_gateOperandToAsgTexpr, h_indexOperatorToAsgType, h_expressionListToAsgType, h_qubitListToAsgTexpr, h_gateOperandsLoop, h_expressionListToAsgTexpr, h_exprsLoop, h_blockExprToAsgStmtList, h_stmtsLoop, h_blockExprToAsgType, h_blockOrStmtToAsgType, h_classicalDeclarationStatementToAsgStmt, h_assignmentStmtToAsgStmt, h_indexedIdentifierToAsgType, h_indexOperatorsLoop⟩ := ih
+  rcases ixs with _ | ⟨x, rest⟩ <;> simp only [List.map_cons, List.map_nil] <;> (unfold Oq3.Sema.indexOperatorsLoop; comm)
+
+theorem allComm (fuel : Nat) : AllComm fuel := by
+  induction fuel with
+  | zero =>
+    constructor
+    · intros; unfold Oq3.Sema.stmtToAsgStmt; comm
+    · intros; unfold Oq3.Sema.caseExprsLoop; comm
+    · intros; unfold Oq3.Sema.exprStmtToAsgStmt; comm
+    · intros; unfold Oq3.Sema.modifiersLoop; comm
+    · intros; unfold Oq3.Sema.parenExprToAsgTexpr; comm
+    · intros; unfold Oq3.Sema.exprToAsgTexpr; comm
+    · intros; unfold Oq3.Sema.setExpressionToAsgType; comm
+    · intros; unfold Oq3.Sema.rangeExpressionToAsgType; comm
+    · intros; unfold Oq3.Sema.gateCallExprToAsgStmt; comm
+    · intros; unfold Oq3.Sema.callExprToAsgTexpr; comm
+    · intros; unfold Oq3.Sema.gateOperandToAsgTexpr; comm
+    · intros; unfold Oq3.Sema.indexOperatorToAsgType; comm
+    · intros; unfold Oq3.Sema.expressionListToAsgType; comm
+    · intros; unfold Oq3.Sema.qubitListToAsgTexpr; comm
+    · intros; unfold Oq3.Sema.gateOperandsLoop; comm
+    · intros; unfold Oq3.Sema.expressionListToAsgTexpr; comm
+    · intros; unfold Oq3.Sema.exprsLoop; comm
+    · intros; unfold Oq3.Sema.blockExprToAsgStmtList; comm
+    · intros; unfold Oq3.Sema.stmtsLoop; comm
+    · intros; unfold Oq3.Sema.blockExprToAsgType; comm
+    · intros; unfold Oq3.Sema.blockOrStmtToAsgType; comm
+    · intros; unfold Oq3.Sema.classicalDeclarationStatementToAsgStmt; comm
+    · intros; unfold Oq3.Sema.assignmentStmtToAsgStmt; comm
+    · intros; unfold Oq3.Sema.indexedIdentifierToAsgType; comm
+    · intros; unfold Oq3.Sema.indexOperatorsLoop; comm
+  | succ fuel ih =>
+    constructor
+    · intros; exact stmtToAsgStmt_comm_step fuel ih _
+    · intros; exact caseExprsLoop_comm_step fuel ih _
+    · intros; exact exprStmtToAsgStmt_comm_step fuel ih _
+    · intros; exact modifiersLoop_comm_step fuel ih _
+    · intros; exact parenExprToAsgTexpr_comm_step fuel ih _
+    · intros; exact exprToAsgTexpr_comm_step fuel ih _
+    · intros; exact setExpressionToAsgType_comm_step fuel ih _
+    · intros; exact rangeExpressionToAsgType_comm_step fuel ih _
+    · intros; exact gateCallExprToAsgStmt_comm_step fuel ih _ _
+    · intros; exact callExprToAsgTexpr_comm_step fuel ih _ _ _
+    · intros; exact gateOperandToAsgTexpr_comm_step fuel ih _
+    · intros; exact indexOperatorToAsgType_comm_step fuel ih _
+    · intros; exact expressionListToAsgType_comm_step fuel ih _
+    · intros; exact qubitListToAsgTexpr_comm_step fuel ih _
+    · intros; exact gateOperandsLoop_comm_step fuel ih _
+    · intros; exact expressionListToAsgTexpr_comm_step fuel ih _
+    · intros; exact exprsLoop_comm_step fuel ih _
+    · intros; exact blockExprToAsgStmtList_comm_step fuel ih _
+    · intros; exact stmtsLoop_comm_step fuel ih _
+    · intros; exact blockExprToAsgType_comm_step fuel ih _
+    · intros; exact blockOrStmtToAsgType_comm_step fuel ih _
+    · intros; exact classicalDeclarationStatementToAsgStmt_comm_step fuel ih _ _ _ _ _ _
+    · intros; exact assignmentStmtToAsgStmt_comm_step fuel ih _ _ _ _
+    · intros; exact indexedIdentifierToAsgType_comm_step fuel ih _
+    · intros; exact indexOperatorsLoop_comm_step fuel ih _
+
+
+/-! ### the whole analysis, erased -/
+
+theorem attachM_comm (o : Option Stmt) : Comm id (attachM o) (attachM o) := by
+  unfold attachM; comm
+
+theorem topStmtM_comm (fuel : Nat) (s : Ast.Stmt) : Comm id (topStmtM fuel s) (topStmtM fuel (erStmt s)) := by
+  have h := (allComm fuel).stmtToAsgStmt
+  cases s
+  case includeStmt sp file =>
+    simp only [erStmt]
+    unfold topStmtM
+    refine Comm.bind (Comm.unwrap erFilePath _ _) fun f => ?_
+    simp only [erFilePath_toString]
+    refine Comm.bind (Comm.unwrap_id _ _) fun fp => ?_
+    dsimp only [id_eq]
+    by_cases hc : (fp == "stdgates.inc") = true
+    · simp only [hc, if_true]
+      exact Comm.bind (standardLibraryGates_comm sp) fun _ => Comm.pure rfl
+    · simp only [hc, if_false]
+      exact Comm.throw_bind _
+  all_goals (simp only [topStmtM, erStmt]; first | exact h _ | exact Comm.of_eq (h _) (by simp only [erStmt]))
+
+/-- erasing all text ranges of the program commutes with the statement loop -/
+theorem loop_comm (fuel : Nat) (ss : List Ast.Stmt) :
+    Comm id (syntaxToSemanticLoop fuel ss) (syntaxToSemanticLoop fuel (ss.map erStmt)) := by
+  induction ss generalizing fuel with
+  | nil =>
+    cases fuel with
+    | zero => unfold syntaxToSemanticLoop; exact Comm.throw _
+    | succ fuel => simp only [List.map_nil]; unfold syntaxToSemanticLoop; exact Comm.pure rfl
+  | cons s rest ih =>
+    cases fuel with
+    | zero => unfold syntaxToSemanticLoop; exact Comm.throw _
+    | succ fuel =>
+      simp only [List.map_cons, topLoop_cons_eq]
+      exact Comm.bind (topStmtM_comm fuel s) fun o => Comm.bind (attachM_comm o) fun _ => ih fuel
+
+theorem parseIncludedFiles_comm (ss : List Ast.Stmt) :
+    Comm id (parseIncludedFiles ss) (parseIncludedFiles (ss.map erStmt)) := by
+  induction ss with
+  | nil => simp only [List.map_nil]; unfold parseIncludedFiles; exact Comm.pure rfl
+  | cons s rest ih =>
+    cases s <;> simp only [List.map_cons, erStmt, parseIncludedFiles] <;> first | exact ih | skip
+    comm
+
+theorem syntaxToSemantic_comm (fuel : Nat) (p : Ast.Program) :
+    Comm id (syntaxToSemantic fuel p) (syntaxToSemantic fuel (eraseSpans p)) := by
+  unfold syntaxToSemantic eraseSpans
+  simp only [erStmts_eq]
+  have h1 := parseIncludedFiles_comm p.statements
+  have h2 := loop_comm fuel p.statements
+  comm
+
+theorem erCtx_empty : erCtx {} = {} := rfl
+
+/-- the analysis of the span-erased program is the analysis of the program with the positions of
+the diagnostics erased: same outcome (normal return or the same panic), same graph, same symbol
+table, same constant values, same pending annotations, same diagnostic kinds in the same order -/
+theorem analyze_eraseSpans (fuel : Nat) (p : Ast.Program) :
+    analyzeWith fuel (eraseSpans p) = (analyzeWith fuel p).map erCtx := by
+  unfold analyzeWith
+  have h := (syntaxToSemantic_comm fuel p).run {}
+  rw [erCtx_empty] at h
+  simp only [StateT.run]
+  rw [h]
+  cases syntaxToSemantic fuel p {} with
+  | error e => rfl
+  | ok r => rfl
+
+/-- **span irrelevance**: two typed ASTs that differ only in text ranges are analysed alike — the
+results are equal up to the positions stored in the diagnostics (and both panic alike).  This is
+the semantic-layer half of layout invariance: a re-layout changes nothing in the AST but ranges. -/
+theorem span_irrelevant (fuel : Nat) {p p' : Ast.Program} (h : eraseSpans p = eraseSpans p') :
+    (analyzeWith fuel p).map erCtx = (analyzeWith fuel p').map erCtx := by
+  rw [← analyze_eraseSpans, ← analyze_eraseSpans, h]
+
+/-- in particular the graph, the symbols and the kinds of the diagnostics agree -/
+theorem span_irrelevant_ok (fuel : Nat) {p p' : Ast.Program} (h : eraseSpans p = eraseSpans p') {c : Ctx}
+    (hc : analyzeWith fuel p = .ok c) :
+    ∃ c', analyzeWith fuel p' = .ok c' ∧ c'.program = c.program ∧ c'.symbolTable = c.symbolTable ∧
+      c'.semanticErrors.map (·.kind) = c.semanticErrors.map (·.kind) := by
+  have e := span_irrelevant fuel h
+  rw [hc] at e
+  cases h' : analyzeWith fuel p' with
+  | error x => rw [h'] at e; cases e
+  | ok c' =>
+    rw [h'] at e
+    simp only [Except.map, Except.ok.injEq] at e
+    refine ⟨c', rfl, ?_, ?_, ?_⟩
+    · have := congrArg Ctx.program e; simpa [erCtx] using this.symm
+    · have := congrArg Ctx.symbolTable e; simpa [erCtx] using this.symm
+    · have := congrArg (fun c => c.semanticErrors.map (·.kind)) e
+      simpa [erCtx, erErr, Function.comp_def] using this.symm
+
 
 end Oq3.C17
